@@ -107,6 +107,1557 @@ def undo_renames(modules, log=None):
     return True
 
 
+class _SubstAttr(ast.NodeTransformer):
+    """self.<attr> -> expression, <param> -> expression"""
+    def __init__(self, selfname, attr_map, name_map):
+        self.selfname, self.attr_map, self.name_map = selfname, attr_map, name_map
+
+    def visit_Attribute(self, node):
+        if isinstance(node.value, ast.Name) and node.value.id == self.selfname and node.attr in self.attr_map and isinstance(node.ctx, ast.Load):
+            return copy.deepcopy(self.attr_map[node.attr])
+        self.generic_visit(node)
+        return node
+
+    def visit_Name(self, node):
+        if node.id in self.name_map and isinstance(node.ctx, ast.Load):
+            return copy.deepcopy(self.name_map[node.id])
+        return node
+
+
+def lower_context_managers(modules, log=None):
+    """`with K(args): body` where K is a class of the package (not of the reference layout) whose __init__ only stores its arguments, whose __enter__ returns
+    self / nothing and whose __exit__ ignores the exception and never swallows it is `<enter>; try: body finally: <exit>`.  `with f(args): body` where f is
+    a @contextmanager generator of the package with a single `yield` statement is f's body with the yield replaced by `body`.  Anything else is left alone."""
+    _load_pinned()
+    counter = [0]
+    changed = False
+
+    def simple(e):
+        return isinstance(e, (ast.Name, ast.Constant)) or (isinstance(e, ast.Attribute) and simple(e.value))
+
+    def is_cm_decorated(fn):
+        for d in fn.decorator_list:
+            t = d
+            nm = t.id if isinstance(t, ast.Name) else (t.attr if isinstance(t, ast.Attribute) else None)
+            if nm == 'contextmanager':
+                return True
+        return False
+
+    def find_class(m, name):
+        for st in m.tree.body:
+            if isinstance(st, ast.ClassDef) and st.name == name:
+                return m, st
+        for st in m.tree.body:
+            if isinstance(st, ast.ImportFrom):
+                for a in st.names:
+                    if (a.asname or a.name) == name:
+                        for m2 in modules.values():
+                            if st.module and m2.name.endswith(st.module.split('.')[-1]):
+                                for st2 in m2.tree.body:
+                                    if isinstance(st2, ast.ClassDef) and st2.name == a.name:
+                                        return m2, st2
+        return None, None
+
+    def lower_class(m, w, item, call):
+        cm, C = find_class(m, call.func.id)
+        if C is None or f'{cm.name}:{C.name}.__exit__' in _PINNED or any(fq.startswith(f'{cm.name}:{C.name}.') for fq in _PINNED):
+            return None
+        meth = {st.name: st for st in C.body if isinstance(st, ast.FunctionDef)}
+        if '__enter__' not in meth or '__exit__' not in meth or C.bases:
+            return None
+        init = meth.get('__init__')
+        attr_map = {}
+        if init is not None:
+            ps = [a.arg for a in init.args.args][1:]
+            if init.args.vararg or init.args.kwarg or init.args.kwonlyargs or len(call.args) + len(call.keywords) != len(ps):
+                return None
+            amap = dict(zip(ps, call.args))
+            for k in call.keywords:
+                if k.arg not in ps:
+                    return None
+                amap[k.arg] = k.value
+            if not all(simple(v) for v in amap.values()):
+                return None
+            sn = init.args.args[0].arg
+            for st in init.body:
+                if isinstance(st, ast.Expr) and isinstance(st.value, ast.Constant):
+                    continue
+                if isinstance(st, ast.Assign) and len(st.targets) == 1 and isinstance(st.targets[0], ast.Attribute) and isinstance(st.targets[0].value, ast.Name) \
+                        and st.targets[0].value.id == sn and isinstance(st.value, ast.Name) and st.value.id in amap:
+                    attr_map[st.targets[0].attr] = amap[st.value.id]
+                else:
+                    return None
+        elif call.args or call.keywords:
+            return None
+        en, ex = meth['__enter__'], meth['__exit__']
+        # __enter__: statements, then `return self` / `return` / nothing
+        en_body = [st for st in en.body if not (isinstance(st, ast.Expr) and isinstance(st.value, ast.Constant))]
+        en_ret = None
+        if en_body and isinstance(en_body[-1], ast.Return):
+            en_ret = en_body[-1].value
+            en_body = en_body[:-1]
+        if any(isinstance(x, (ast.Return, ast.Yield)) for st in en_body for x in ast.walk(st)):
+            return None
+        sn_en = en.args.args[0].arg
+        if item.optional_vars is not None:
+            # the bound object must not be needed as an object
+            return None
+        if en_ret is not None and not (isinstance(en_ret, ast.Name) and en_ret.id == sn_en) and not (isinstance(en_ret, ast.Constant)):
+            return None
+        ex_body = [st for st in ex.body if not (isinstance(st, ast.Expr) and isinstance(st.value, ast.Constant))]
+        if ex_body and isinstance(ex_body[-1], ast.Return):
+            rv = ex_body[-1].value
+            if not (rv is None or (isinstance(rv, ast.Constant) and not rv.value)):
+                return None
+            ex_body = ex_body[:-1]
+        if any(isinstance(x, (ast.Return, ast.Yield)) for st in ex_body for x in ast.walk(st)):
+            return None
+        ex_params = {a.arg for a in ex.args.args[1:]} | ({ex.args.vararg.arg} if ex.args.vararg else set())
+        if any(isinstance(x, ast.Name) and x.id in ex_params for st in ex_body for x in ast.walk(st)):
+            return None
+        sn_ex = ex.args.args[0].arg
+        # every use of self in the copied bodies must be one of the stored attributes
+        for (snm, body) in ((sn_en, en_body), (sn_ex, ex_body)):
+            for st in body:
+                for x in ast.walk(st):
+                    if isinstance(x, ast.Name) and x.id == snm:
+                        par_ok = False
+                        for y in ast.walk(st):
+                            if isinstance(y, ast.Attribute) and y.value is x and y.attr in attr_map and isinstance(y.ctx, ast.Load):
+                                par_ok = True
+                        if not par_ok:
+                            return None
+        pre = [_SubstAttr(sn_en, attr_map, {}).visit(copy.deepcopy(st)) for st in en_body]
+        fin = [_SubstAttr(sn_ex, attr_map, {}).visit(copy.deepcopy(st)) for st in ex_body]
+        tr = ast.Try(body=w.body, handlers=[], orelse=[], finalbody=fin or [ast.Pass()])
+        return pre + [tr], C.name
+
+    def find_func(m, encl_cls, call):
+        f = call.func
+        if isinstance(f, ast.Name):
+            for st in m.tree.body:
+                if isinstance(st, ast.FunctionDef) and st.name == f.id:
+                    return st, None, f'{m.name}:{st.name}'
+        if isinstance(f, ast.Attribute) and isinstance(f.value, ast.Name) and f.value.id in ('self', 'cls') and encl_cls is not None:
+            for st in encl_cls.body:
+                if isinstance(st, ast.FunctionDef) and st.name == f.attr:
+                    return st, f.value, f'{m.name}:{encl_cls.name}.{st.name}'
+        return None, None, None
+
+    def lower_gen(m, encl_cls, w, item, call):
+        fn, recv, fq = find_func(m, encl_cls, call)
+        if fn is None or fq in _PINNED or not is_cm_decorated(fn):
+            return None
+        ys = [x for x in ast.walk(fn) if isinstance(x, (ast.Yield, ast.YieldFrom))]
+        if len(ys) != 1 or isinstance(ys[0], ast.YieldFrom):
+            return None
+        if any(isinstance(x, ast.Return) for x in ast.walk(fn)):
+            return None
+        ps = [a.arg for a in fn.args.args]
+        if fn.args.vararg or fn.args.kwarg or fn.args.kwonlyargs:
+            return None
+        name_map = {}
+        if recv is not None:
+            if not ps:
+                return None
+            name_map[ps[0]] = recv
+            ps = ps[1:]
+        if len(call.args) + len(call.keywords) != len(ps) or not all(simple(a) for a in call.args) or not all(simple(k.value) for k in call.keywords):
+            return None
+        for p_, a in zip(ps, call.args):
+            name_map[p_] = a
+        for k in call.keywords:
+            if k.arg not in ps:
+                return None
+            name_map[k.arg] = k.value
+        # parameters must not be rebound in the generator
+        for x in ast.walk(fn):
+            if isinstance(x, ast.Name) and isinstance(x.ctx, ast.Store) and x.id in name_map:
+                return None
+        body = copy.deepcopy([st for st in fn.body if not (isinstance(st, ast.Expr) and isinstance(st.value, ast.Constant))])
+        counter[0] += 1
+        sfx = f'__cm{counter[0]}'
+        locals_ = {x.id for st in body for x in ast.walk(st) if isinstance(x, ast.Name) and isinstance(x.ctx, ast.Store)} | \
+            {h.name for st in body for h in ast.walk(st) if isinstance(h, ast.ExceptHandler) and h.name}
+        found = [False]
+
+        def place(stmts):
+            out = []
+            for st in stmts:
+                if isinstance(st, ast.Expr) and isinstance(st.value, ast.Yield):
+                    if item.optional_vars is not None:
+                        if st.value.value is None:
+                            return None
+                        out.append(ast.Assign(targets=[item.optional_vars], value=st.value.value))
+                    out.extend(w.body)
+                    found[0] = True
+                    continue
+                for fld in ('body', 'orelse', 'finalbody'):
+                    sub = getattr(st, fld, None)
+                    if isinstance(sub, list) and sub and isinstance(sub[0], ast.stmt):
+                        r = place(sub)
+                        if r is None:
+                            return None
+                        setattr(st, fld, r)
+                if isinstance(st, ast.Try):
+                    for h in st.handlers:
+                        r = place(h.body)
+                        if r is None:
+                            return None
+                        h.body = r
+                out.append(st)
+            return out
+        # rename the generator's locals first (the with body is not touched: it is spliced in afterwards)
+        class _Ren(ast.NodeTransformer):
+            def visit_Name(self, node):
+                if node.id in locals_:
+                    node.id = node.id + sfx
+                elif node.id in name_map and isinstance(node.ctx, ast.Load):
+                    return copy.deepcopy(name_map[node.id])
+                return node
+
+            def visit_ExceptHandler(self, node):
+                if node.name and node.name in locals_:
+                    node.name = node.name + sfx
+                self.generic_visit(node)
+                return node
+        body = [_Ren().visit(st) for st in body]
+        res = place(body)
+        if res is None or not found[0]:
+            return None
+        # the yield must have been a statement of its own (not buried in an expression / loop)
+        if any(isinstance(x, ast.Yield) for st in res for x in ast.walk(st) if not any(x is y for b in w.body for y in ast.walk(b))):
+            return None
+        return res, fn.name
+
+    def rewrite(m, stmts, encl_cls):
+        nonlocal changed
+        out = []
+        for st in stmts:
+            if isinstance(st, ast.ClassDef):
+                st.body = rewrite(m, st.body, st)
+                out.append(st)
+                continue
+            for fld in ('body', 'orelse', 'finalbody'):
+                sub = getattr(st, fld, None)
+                if isinstance(sub, list) and sub and isinstance(sub[0], ast.stmt):
+                    setattr(st, fld, rewrite(m, sub, encl_cls))
+            if isinstance(st, ast.Try):
+                for h in st.handlers:
+                    h.body = rewrite(m, h.body, encl_cls)
+            if isinstance(st, ast.With) and len(st.items) == 1 and isinstance(st.items[0].context_expr, ast.Call):
+                item = st.items[0]
+                call = item.context_expr
+                r = None
+                if isinstance(call.func, ast.Name):
+                    r = lower_class(m, st, item, call)
+                if r is None:
+                    r = lower_gen(m, encl_cls, st, item, call)
+                if r is not None:
+                    new, what = r
+                    for n_ in new:
+                        ast.copy_location(n_, st)
+                        ast.fix_missing_locations(n_)
+                    out.extend(new)
+                    changed = True
+                    if log is not None:
+                        log.append(f'`with {what}(..)` lowered to try / finally / except')
+                    continue
+            out.append(st)
+        return out
+    for m in modules.values():
+        m.tree.body = rewrite(m, m.tree.body, None)
+    return changed
+
+
+_PINNED_SIGS = None
+
+
+def _load_pinned_sigs():
+    global _PINNED_SIGS
+    if _PINNED_SIGS is None:
+        import json
+        p = os.path.join(os.path.dirname(os.path.abspath(__file__)), 'pinned_signatures.json')
+        try:
+            with open(p) as f:
+                _PINNED_SIGS = json.load(f)
+        except OSError:
+            _PINNED_SIGS = {}
+    return _PINNED_SIGS
+
+
+def simple_expr(e):
+    return isinstance(e, (ast.Name, ast.Constant)) or (isinstance(e, ast.Attribute) and simple_expr(e.value))
+
+
+def undo_signature_changes(modules, log=None):
+    """A private function (or the constructor of a private class) of the reference layout that has the parameter *names* of the reference but another order
+    or other kinds (keyword-only <-> positional) gets its reference signature back, and every call - direct, or through functools.partial - is re-bound by
+    name.  Only when every reference to the function is such a call (or a partial whose remaining positional parameters keep the reference order)."""
+    sigs = _load_pinned_sigs()
+    changed = False
+
+    def cur_sig(fn):
+        a = fn.args
+        r = [(x.arg, 'pos') for x in a.posonlyargs + a.args]
+        if a.vararg:
+            r.append((a.vararg.arg, 'vararg'))
+        r += [(x.arg, 'kwonly') for x in a.kwonlyargs]
+        if a.kwarg:
+            r.append((a.kwarg.arg, 'kwarg'))
+        return r
+
+    def defaults_of(fn):
+        a = fn.args
+        pos = a.posonlyargs + a.args
+        d = {}
+        for x, v in zip(pos[len(pos) - len(a.defaults):], a.defaults):
+            d[x.arg] = v
+        for x, v in zip(a.kwonlyargs, a.kw_defaults):
+            if v is not None:
+                d[x.arg] = v
+        return d
+
+    def annotations_of(fn):
+        a = fn.args
+        return {x.arg: x.annotation for x in a.posonlyargs + a.args + a.kwonlyargs}
+
+    def bind(cur, call_args, call_kws, skip_first):
+        """name -> expr through the current signature; None when it cannot be done"""
+        pos = [n for (n, k) in cur if k == 'pos']
+        if skip_first:
+            pos = pos[1:]
+        if any(isinstance(a, ast.Starred) for a in call_args) or any(k.arg is None for k in call_kws) or len(call_args) > len(pos):
+            return None
+        m = dict(zip(pos, call_args))
+        names = {n for (n, k) in cur}
+        for k in call_kws:
+            if k.arg in m or k.arg not in names:
+                return None
+            m[k.arg] = k.value
+        return m
+
+    def emit(ref, m, skip_first):
+        pos = [n for (n, k) in ref if k == 'pos']
+        if skip_first:
+            pos = pos[1:]
+        args, kws = [], []
+        contiguous = True
+        for n in pos:
+            if n in m and contiguous:
+                args.append(m[n])
+            elif n in m:
+                kws.append(ast.keyword(arg=n, value=m[n]))
+            else:
+                contiguous = False
+        for (n, k) in ref:
+            if k == 'kwonly' and n in m:
+                kws.append(ast.keyword(arg=n, value=m[n]))
+        return args, kws
+    # a parameter the reference does not have, with a constant default that no call overrides, is that constant
+    for mname, mod in modules.items():
+        fns = [(f'{mname}:{st.name}', st) for st in mod.tree.body if isinstance(st, ast.FunctionDef)] + \
+              [(f'{mname}:{c.name}.{st.name}', st) for c in mod.tree.body if isinstance(c, ast.ClassDef) for st in c.body if isinstance(st, ast.FunctionDef)]
+        for fq, fn in fns:
+            ref = sigs.get(fq)
+            if ref is None:
+                continue
+            refnames = {n for n, _ in ref}
+            dflt = defaults_of(fn)
+            extra = [n for (n, k) in cur_sig(fn) if n not in refnames and k in ('pos', 'kwonly')]
+            for n in extra:
+                v = dflt.get(n)
+                if not isinstance(v, ast.Constant):
+                    continue
+                if any(isinstance(x, ast.Name) and x.id == n and isinstance(x.ctx, (ast.Store, ast.Del)) for x in ast.walk(fn)):
+                    continue
+                if any(isinstance(x, (ast.FunctionDef, ast.Lambda)) and x is not fn and any(a.arg == n for a in x.args.args + x.args.kwonlyargs) for x in ast.walk(fn)):
+                    continue
+                passed = False
+                npos_ref = len([1 for _, k in ref if k == 'pos'])
+                is_pos = any(a.arg == n for a in fn.args.args)
+                for m2 in modules.values():
+                    for c in ast.walk(m2.tree):
+                        if isinstance(c, ast.Call):
+                            cn_ = c.func.id if isinstance(c.func, ast.Name) else (c.func.attr if isinstance(c.func, ast.Attribute) else None)
+                            if any(k.arg == n or k.arg is None for k in c.keywords) and (cn_ == fn.name or (cn_ == 'partial' and c.args and getattr(c.args[0], 'id', getattr(c.args[0], 'attr', None)) == fn.name)):
+                                passed = True
+                            if is_pos and cn_ == fn.name and (len(c.args) > npos_ref - (1 if isinstance(c.func, ast.Attribute) and '.' in fq.partition(':')[2] else 0) or
+                                                              any(isinstance(a, ast.Starred) for a in c.args)):
+                                passed = True
+                if passed:
+                    continue
+
+                class _Fold(ast.NodeTransformer):
+                    def visit_Name(self, node):
+                        if node.id == n and isinstance(node.ctx, ast.Load):
+                            return ast.copy_location(ast.Constant(value=v.value), node)
+                        return node
+                a = fn.args
+                if is_pos:
+                    idx = [x.arg for x in a.args].index(n)
+                    di = idx - (len(a.args) - len(a.defaults))
+                    del a.args[idx]
+                    if 0 <= di < len(a.defaults):
+                        del a.defaults[di]
+                else:
+                    idx = [x.arg for x in a.kwonlyargs].index(n)
+                    del a.kwonlyargs[idx]
+                    del a.kw_defaults[idx]
+                fn.body = [_Fold().visit(st) for st in fn.body]
+                changed = True
+                if log is not None:
+                    log.append(f'`{fq}`: parameter `{n}` (not in the reference, default {v.value!r} never overridden) folded')
+    method_names = {}
+    for mod in modules.values():
+        for c_ in ast.walk(mod.tree):
+            if isinstance(c_, ast.ClassDef):
+                for s2 in c_.body:
+                    if isinstance(s2, ast.FunctionDef):
+                        method_names[s2.name] = method_names.get(s2.name, 0) + 1
+    # an argument the reference computes in the callee's first statement, now computed by every caller: `def f(.., rule, ..): route = K(rule)` <- `f(.., K(x), ..)`
+    for mname, mod in modules.items():
+        for cdef in [c_ for c_ in mod.tree.body if isinstance(c_, ast.ClassDef)]:
+            for fn in [s2 for s2 in cdef.body if isinstance(s2, ast.FunctionDef)]:
+                fq = f'{mname}:{cdef.name}.{fn.name}'
+                ref = sigs.get(fq)
+                if ref is None or method_names.get(fn.name) != 1 or not fn.name.startswith('_') or fn.name.startswith('__'):
+                    continue
+                cur = cur_sig(fn)
+                refn, curn = [n for n, _ in ref], [n for n, _ in cur]
+                gone = [n for n in refn if n not in curn]
+                new_ = [n for n in curn if n not in refn]
+                if len(gone) != 1 or len(new_) != 1 or refn.index(gone[0]) != curn.index(new_[0]):
+                    continue
+                if any(isinstance(x, ast.Name) and x.id == gone[0] for x in ast.walk(fn)):
+                    continue
+                calls = [c for m2 in modules.values() for c in ast.walk(m2.tree) if isinstance(c, ast.Call) and isinstance(c.func, ast.Attribute) and c.func.attr == fn.name]
+                refs = sum(1 for m2 in modules.values() for n in ast.walk(m2.tree) if isinstance(n, ast.Attribute) and n.attr == fn.name)
+                if not calls or refs != len(calls):
+                    continue
+                idx = curn.index(new_[0]) - 1
+                wraps = []
+                for c in calls:
+                    a = None
+                    if idx < len(c.args):
+                        a = c.args[idx]
+                    else:
+                        a = next((k.value for k in c.keywords if k.arg == new_[0]), None)
+                    if isinstance(a, ast.Call) and isinstance(a.func, ast.Name) and len(a.args) == 1 and not a.keywords and simple_expr(a.args[0]):
+                        wraps.append((c, a))
+                if len(wraps) != len(calls) or len({w.func.id for _, w in wraps}) != 1:
+                    continue
+                kname = wraps[0][1].func.id
+                for c, a in wraps:
+                    if idx < len(c.args):
+                        c.args[idx] = a.args[0]
+                    else:
+                        for k in c.keywords:
+                            if k.arg == new_[0]:
+                                k.arg, k.value = gone[0], a.args[0]
+                for a_ in fn.args.args + fn.args.kwonlyargs:
+                    if a_.arg == new_[0]:
+                        a_.arg = gone[0]
+                first = ast.Assign(targets=[ast.Name(id=new_[0], ctx=ast.Store())], value=ast.Call(func=ast.Name(id=kname, ctx=ast.Load()), args=[ast.Name(id=gone[0], ctx=ast.Load())], keywords=[]))
+                k0 = 1 if fn.body and isinstance(fn.body[0], ast.Expr) and isinstance(fn.body[0].value, ast.Constant) else 0
+                ast.copy_location(first, fn.body[k0] if len(fn.body) > k0 else fn)
+                fn.body.insert(k0, first)
+                changed = True
+                if log is not None:
+                    log.append(f'`{fq}`: `{new_[0]} = {kname}({gone[0]})` computed by the callers put back into the callee')
+    for mname, mod in modules.items():
+        for top in list(mod.tree.body):
+            targets = []
+            if isinstance(top, ast.FunctionDef) and top.name.startswith('_'):
+                targets.append((f'{mname}:{top.name}', top, top.name, False))
+            elif isinstance(top, ast.ClassDef) and top.name.startswith('_'):
+                for s2 in top.body:
+                    if isinstance(s2, ast.FunctionDef) and s2.name == '__init__':
+                        targets.append((f'{mname}:{top.name}.__init__', s2, top.name, True))
+            if isinstance(top, ast.ClassDef):
+                for s2 in top.body:
+                    if isinstance(s2, ast.FunctionDef) and s2.name.startswith('_') and not s2.name.startswith('__') and method_names.get(s2.name) == 1 \
+                            and not any(isinstance(d, ast.Name) and d.id in ('staticmethod', 'classmethod', 'property') for d in s2.decorator_list):
+                        targets.append((f'{mname}:{top.name}.{s2.name}', s2, s2.name, 'method'))
+            for fq, fn, callname, is_ctor in targets:
+                ref = sigs.get(fq)
+                if ref is None:
+                    continue
+                ref = [tuple(x) for x in ref]
+                cur = cur_sig(fn)
+                if cur == ref or {n for n, _ in cur} != {n for n, _ in ref} or any(k in ('vararg', 'kwarg') for _, k in cur + ref):
+                    continue
+                # every reference to the name in the package
+                direct, partials, other = [], [], 0
+                for m2 in modules.values():
+                    claimed = set()
+                    for c in ast.walk(m2.tree):
+                        if isinstance(c, ast.Call):
+                            if is_ctor == 'method':
+                                if isinstance(c.func, ast.Attribute) and c.func.attr == callname:
+                                    direct.append(c)
+                                    claimed.add(id(c.func))
+                                continue
+                            if isinstance(c.func, ast.Name) and c.func.id == callname:
+                                direct.append(c)
+                                claimed.add(id(c.func))
+                            elif isinstance(c.func, (ast.Name, ast.Attribute)) and (getattr(c.func, 'id', None) == 'partial' or getattr(c.func, 'attr', None) == 'partial') \
+                                    and c.args and isinstance(c.args[0], ast.Name) and c.args[0].id == callname:
+                                partials.append(c)
+                                claimed.add(id(c.args[0]))
+                    for n in ast.walk(m2.tree):
+                        if isinstance(n, ast.Name) and n.id == callname and isinstance(n.ctx, ast.Load) and id(n) not in claimed:
+                            other += 1
+                        elif isinstance(n, ast.Attribute) and n.attr == callname and id(n) not in claimed:
+                            other += 1
+                if other:
+                    continue
+                plan = []
+                ok = True
+                for c in direct:
+                    m = bind(cur, c.args, c.keywords, is_ctor)
+                    if m is None:
+                        ok = False
+                        break
+                    plan.append((c, None, m))
+                for c in partials:
+                    m = bind(cur, c.args[1:], c.keywords, is_ctor)
+                    if m is None:
+                        ok = False
+                        break
+                    rem_cur = [n for (n, k) in cur if k == 'pos' and n not in m][(1 if is_ctor else 0):]
+                    rem_ref = [n for (n, k) in ref if k == 'pos' and n not in m][(1 if is_ctor else 0):]
+                    if rem_cur != rem_ref:
+                        ok = False
+                        break
+                    plan.append((c, 'partial', m))
+                if not ok:
+                    continue
+                dflt = defaults_of(fn)
+                ann = annotations_of(fn)
+                rpos = [n for (n, k) in ref if k == 'pos']
+                rkw = [n for (n, k) in ref if k == 'kwonly']
+                seen_default = False
+                bad = False
+                for n in rpos:
+                    if n in dflt:
+                        seen_default = True
+                    elif seen_default:
+                        bad = True
+                if bad:
+                    continue
+                fn.args = ast.arguments(posonlyargs=[], args=[ast.arg(arg=n, annotation=ann.get(n)) for n in rpos], vararg=None,
+                                        kwonlyargs=[ast.arg(arg=n, annotation=ann.get(n)) for n in rkw], kw_defaults=[dflt.get(n) for n in rkw], kwarg=None,
+                                        defaults=[dflt[n] for n in rpos if n in dflt])
+                for (c, kind, m) in plan:
+                    if kind == 'partial':
+                        c.args = [c.args[0]]
+                        c.keywords = [ast.keyword(arg=n, value=v) for n, v in m.items()]
+                    else:
+                        c.args, c.keywords = emit(ref, m, is_ctor)
+                changed = True
+                if log is not None:
+                    log.append(f'`{fq}`: reference signature restored, {len(plan)} call(s) re-bound by name')
+    if changed:
+        for m in modules.values():
+            ast.fix_missing_locations(m.tree)
+    return changed
+
+
+_PRE_MADE = set()
+
+
+def lower_namedtuples(modules, log=None):
+    """A NamedTuple class that is not part of the reference layout is a tuple with named positions: its constructor calls become tuple displays, and a local
+    that is bound to a call result and only ever read through the field names is unpacked into one local per field (`v__field`).  Left alone when the class is
+    used in any other way (isinstance, subclassing, annotations of parameters aside)."""
+    _load_pinned()
+    ref_classes = {fq.partition(':')[2].split('.')[0] for fq in _PINNED if '.' in fq.partition(':')[2]} | {c.partition(':')[2] for c in _load_pinned_attrs()['classes']}
+    nts = {}
+    for m in modules.values():
+        for st in m.tree.body:
+            if isinstance(st, ast.ClassDef) and st.name not in ref_classes and any(
+                    (isinstance(b, ast.Name) and b.id == 'NamedTuple') or (isinstance(b, ast.Attribute) and b.attr == 'NamedTuple') for b in st.bases):
+                fields, dfl = [], {}
+                ok = True
+                for s2 in st.body:
+                    if isinstance(s2, ast.AnnAssign) and isinstance(s2.target, ast.Name):
+                        fields.append(s2.target.id)
+                        if s2.value is not None:
+                            dfl[s2.target.id] = s2.value
+                    elif isinstance(s2, ast.Expr) and isinstance(s2.value, ast.Constant):
+                        continue
+                    else:
+                        ok = False
+                if ok and fields:
+                    nts[st.name] = (fields, dfl, st, m)
+            elif isinstance(st, ast.Assign) and len(st.targets) == 1 and isinstance(st.targets[0], ast.Name) and st.targets[0].id not in ref_classes \
+                    and isinstance(st.value, ast.Call) and (getattr(st.value.func, 'id', None) == 'namedtuple' or getattr(st.value.func, 'attr', None) == 'namedtuple') \
+                    and len(st.value.args) == 2 and not st.value.keywords and isinstance(st.value.args[0], ast.Constant) and st.value.args[0].value == st.targets[0].id:
+                # X = namedtuple('X', 'a b') / ['a', 'b']
+                spec = st.value.args[1]
+                fields = None
+                if isinstance(spec, ast.Constant) and isinstance(spec.value, str):
+                    fields = spec.value.replace(',', ' ').split()
+                elif isinstance(spec, (ast.List, ast.Tuple)) and all(isinstance(e, ast.Constant) and isinstance(e.value, str) for e in spec.elts):
+                    fields = [e.value for e in spec.elts]
+                if fields:
+                    nts[st.targets[0].id] = (fields, {}, st, m)
+    if not nts:
+        return False
+    # other uses of the class name
+    for name in list(nts):
+        bad = False
+        for m in modules.values():
+            ctor_funcs = set()
+            for c in ast.walk(m.tree):
+                if isinstance(c, ast.Call) and isinstance(c.func, ast.Name) and c.func.id == name:
+                    ctor_funcs.add(id(c.func))
+                    if any(isinstance(a, ast.Starred) for a in c.args) or any(k.arg is None for k in c.keywords):
+                        bad = True
+            ann = set()
+            for fn in ast.walk(m.tree):
+                if isinstance(fn, (ast.FunctionDef,)):
+                    for x in [fn.returns] + [a.annotation for a in fn.args.args + fn.args.kwonlyargs]:
+                        if x is not None:
+                            ann |= {id(y) for y in ast.walk(x)}
+                elif isinstance(fn, ast.AnnAssign):
+                    ann |= {id(y) for y in ast.walk(fn.annotation)}
+            for n in ast.walk(m.tree):
+                if isinstance(n, ast.Name) and n.id == name and isinstance(n.ctx, ast.Load) and id(n) not in ctor_funcs and id(n) not in ann:
+                    bad = True
+        if bad:
+            del nts[name]
+    if not nts:
+        return False
+    changed = False
+
+    class _Ctor(ast.NodeTransformer):
+        def visit_Call(self, node):
+            self.generic_visit(node)
+            if isinstance(node.func, ast.Name) and node.func.id in nts:
+                fields, dfl, _, _ = nts[node.func.id]
+                vals = dict(zip(fields, node.args))
+                for k in node.keywords:
+                    vals[k.arg] = k.value
+                elts = []
+                for f_ in fields:
+                    if f_ in vals:
+                        elts.append(vals[f_])
+                    elif f_ in dfl:
+                        elts.append(copy.deepcopy(dfl[f_]))
+                    else:
+                        return node
+                return ast.copy_location(ast.Tuple(elts=elts, ctx=ast.Load()), node)
+            return node
+    for m in modules.values():
+        before = ast.dump(m.tree)
+        m.tree = _Ctor().visit(m.tree)
+        if ast.dump(m.tree) != before:
+            changed = True
+    field_sets = {name: set(v[0]) for name, v in nts.items()}
+    for m in modules.values():
+        for fn in [x for x in ast.walk(m.tree) if isinstance(x, ast.FunctionDef)]:
+            own = [x for x in _walk_no_defs_body(fn)]
+            stores = {}
+            for x in own:
+                if isinstance(x, ast.Name) and isinstance(x.ctx, ast.Store):
+                    stores.setdefault(x.id, []).append(x)
+            for v, sts in stores.items():
+                if any(a.arg == v for a in fn.args.args + fn.args.kwonlyargs):
+                    continue
+                asg = [x for x in own if isinstance(x, ast.Assign) and len(x.targets) == 1 and isinstance(x.targets[0], ast.Name) and x.targets[0].id == v
+                       and isinstance(x.value, (ast.Call, ast.Tuple))]
+                if len(asg) != len(sts) or not asg:
+                    continue
+                loads = [x for x in own if isinstance(x, ast.Name) and x.id == v and isinstance(x.ctx, ast.Load)]
+                attrs = [x for x in own if isinstance(x, ast.Attribute) and isinstance(x.value, ast.Name) and x.value.id == v and isinstance(x.ctx, ast.Load)]
+                if not loads or len(attrs) != len(loads):
+                    continue
+                used = {x.attr for x in attrs}
+                match = [name for name, fs in field_sets.items() if used <= fs]
+                if len(match) != 1:
+                    continue
+                fields = nts[match[0]][0]
+                _PRE_MADE.add(f'{v}__')
+                for a in asg:
+                    a.targets = [ast.Tuple(elts=[ast.Name(id=f'{v}__{f_}', ctx=ast.Store()) for f_ in fields], ctx=ast.Store())]
+                for x in attrs:
+                    x.__class__ = ast.Name
+                    x.id = f'{v}__{x.attr}'
+                    x._fields = ast.Name._fields
+                changed = True
+                if log is not None:
+                    log.append(f'`{v}` in {fn.name}: record of NamedTuple `{match[0]}` unpacked into one local per field')
+    if changed:
+        for name, (_, _, cdef, cm) in nts.items():
+            if cdef in cm.tree.body:
+                cm.tree.body.remove(cdef)
+        for m in modules.values():
+            ast.fix_missing_locations(m.tree)
+    return changed
+
+
+def _replace_stmt(root, old_st, new_list):
+    for holder in ast.walk(root):
+        for fld in ('body', 'orelse', 'finalbody'):
+            lst = getattr(holder, fld, None)
+            if isinstance(lst, list):
+                for i, s_ in enumerate(lst):
+                    if s_ is old_st:
+                        lst[i:i + 1] = new_list
+                        return True
+        if isinstance(holder, ast.Try):
+            for h in holder.handlers:
+                for i, s_ in enumerate(h.body):
+                    if s_ is old_st:
+                        h.body[i:i + 1] = new_list
+                        return True
+    return False
+
+
+def _walk_no_defs_body(fn):
+    """nodes of a function body, nested function / class definitions excluded"""
+    stack = list(fn.body)
+    while stack:
+        n = stack.pop()
+        yield n
+        for ch in ast.iter_child_nodes(n):
+            if isinstance(ch, (ast.FunctionDef, ast.AsyncFunctionDef, ast.ClassDef, ast.Lambda)):
+                continue
+            stack.append(ch)
+
+
+def lower_memo_tables(modules, log=None):
+    """`try: x = TABLE[k] except (KeyError, ..): x = F(k)` with the module-level `TABLE = {v: F(v) for v in <anything>}` (never written elsewhere) is `x = F(k)`:
+    the table only remembers what F returns (F is taken as a function of its argument: it is read, and must not touch anything but its locals)."""
+    changed = False
+    for m in modules.values():
+        tables = {}
+        for st in m.tree.body:
+            if isinstance(st, (ast.Assign, ast.AnnAssign)):
+                tg = st.targets[0] if isinstance(st, ast.Assign) and len(st.targets) == 1 else getattr(st, 'target', None)
+                v = st.value
+                if isinstance(tg, ast.Name) and isinstance(v, ast.DictComp) and len(v.generators) == 1 and not v.generators[0].ifs \
+                        and isinstance(v.generators[0].target, ast.Name) and isinstance(v.key, ast.Name) and v.key.id == v.generators[0].target.id \
+                        and isinstance(v.value, ast.Call) and isinstance(v.value.func, ast.Name) and len(v.value.args) == 1 and not v.value.keywords \
+                        and isinstance(v.value.args[0], ast.Name) and v.value.args[0].id == v.key.id:
+                    tables[tg.id] = v.value.func.id
+        if not tables:
+            continue
+        for name in list(tables):
+            # the function is pure-looking: a module-level def without attribute stores / global statements / calls other than builtins on its argument
+            fdef = next((st for st in m.tree.body if isinstance(st, ast.FunctionDef) and st.name == tables[name]), None)
+            stores = sum(1 for n in ast.walk(m.tree) if isinstance(n, ast.Name) and n.id == name and isinstance(n.ctx, (ast.Store, ast.Del)))
+            writes = any(isinstance(n, (ast.Subscript, ast.Attribute)) and isinstance(n.ctx, (ast.Store, ast.Del)) and isinstance(n.value, ast.Name) and n.value.id == name for n in ast.walk(m.tree))
+            impure = fdef is None or any(isinstance(n, (ast.Global, ast.Nonlocal, ast.Yield, ast.YieldFrom)) or
+                                         (isinstance(n, (ast.Attribute, ast.Subscript)) and isinstance(n.ctx, (ast.Store, ast.Del))) or
+                                         isinstance(n, ast.Call) for n in ast.walk(fdef))
+            if stores != 1 or writes or impure:
+                del tables[name]
+        if not tables:
+            continue
+
+        def visit(stmts):
+            nonlocal changed
+            out = []
+            for st in stmts:
+                for fld in ('body', 'orelse', 'finalbody'):
+                    sub = getattr(st, fld, None)
+                    if isinstance(sub, list) and sub and isinstance(sub[0], ast.stmt):
+                        setattr(st, fld, visit(sub))
+                if isinstance(st, ast.Try):
+                    for h in st.handlers:
+                        h.body = visit(h.body)
+                    if len(st.body) == 1 and len(st.handlers) == 1 and not st.orelse and not st.finalbody and isinstance(st.body[0], ast.Assign) \
+                            and len(st.body[0].targets) == 1 and isinstance(st.body[0].value, ast.Subscript) and isinstance(st.body[0].value.value, ast.Name) \
+                            and st.body[0].value.value.id in tables and len(st.handlers[0].body) == 1 and isinstance(st.handlers[0].body[0], ast.Assign):
+                        a, b = st.body[0], st.handlers[0].body[0]
+                        key = a.value.slice
+                        ht = st.handlers[0].type
+                        hnames = {ast.unparse(e) for e in (ht.elts if isinstance(ht, ast.Tuple) else [ht])} if ht is not None else set()
+                        if ast.dump(a.targets[0]) == ast.dump(b.targets[0]) and isinstance(b.value, ast.Call) and isinstance(b.value.func, ast.Name) \
+                                and b.value.func.id == tables[a.value.value.id] and len(b.value.args) == 1 and not b.value.keywords \
+                                and ast.dump(b.value.args[0]) == ast.dump(key) and isinstance(key, (ast.Name, ast.Attribute)) and 'KeyError' in hnames \
+                                and hnames <= {'KeyError', 'TypeError', 'LookupError'}:
+                            out.append(ast.copy_location(b, st))
+                            changed = True
+                            if log is not None:
+                                log.append(f'`{a.value.value.id}[..]` with fallback `{tables[a.value.value.id]}(..)`: the table only memoises the function')
+                            continue
+                out.append(st)
+            return out
+        m.tree.body = visit(m.tree.body)
+    return changed
+
+
+def fuse_phase_loops(modules, log=None):
+    """`it = iter(E); for x in it: B; if C: S; break` directly followed by `for x in it: B` (the same statements B) is one loop over E whose final test fires
+    once: `done = False; for x in E: B; if not done and C: S; done = True`."""
+    changed = False
+    counter = [0]
+
+    def dumps(stmts):
+        return [ast.dump(st) for st in stmts]
+
+    def visit(stmts):
+        nonlocal changed
+        for st in stmts:
+            for fld in ('body', 'orelse', 'finalbody'):
+                sub = getattr(st, fld, None)
+                if isinstance(sub, list) and sub and isinstance(sub[0], ast.stmt):
+                    setattr(st, fld, visit(sub))
+            if isinstance(st, ast.Try):
+                for h in st.handlers:
+                    h.body = visit(h.body)
+        out = list(stmts)
+        i = 0
+        while i + 1 < len(out):
+            a, b = out[i], out[i + 1]
+            if isinstance(a, ast.For) and isinstance(b, ast.For) and isinstance(a.iter, ast.Name) and isinstance(b.iter, ast.Name) and a.iter.id == b.iter.id \
+                    and not a.orelse and not b.orelse and ast.dump(a.target) == ast.dump(b.target) and a.body and isinstance(a.body[-1], ast.If) \
+                    and not a.body[-1].orelse and a.body[-1].body and isinstance(a.body[-1].body[-1], ast.Break) \
+                    and dumps(a.body[:-1]) == dumps(b.body) \
+                    and not any(isinstance(x, ast.Break) for s_ in a.body[:-1] for x in ast.walk(s_)) \
+                    and not any(isinstance(x, ast.Break) for s_ in a.body[-1].body[:-1] for x in ast.walk(s_)):
+                nm = a.iter.id
+                defs = [k for k, s_ in enumerate(out[:i]) if isinstance(s_, ast.Assign) and len(s_.targets) == 1 and isinstance(s_.targets[0], ast.Name) and s_.targets[0].id == nm]
+                uses = sum(1 for s_ in out for x in ast.walk(s_) if isinstance(x, ast.Name) and x.id == nm)
+                if len(defs) == 1 and uses == 3 and isinstance(out[defs[0]].value, ast.Call) and isinstance(out[defs[0]].value.func, ast.Name) \
+                        and out[defs[0]].value.func.id == 'iter' and len(out[defs[0]].value.args) == 1:
+                    counter[0] += 1
+                    flag = f'__phase{counter[0]}'
+                    E = out[defs[0]].value.args[0]
+                    last = a.body[-1]
+                    new_if = ast.If(test=ast.BoolOp(op=ast.And(), values=[ast.UnaryOp(op=ast.Not(), operand=ast.Name(id=flag, ctx=ast.Load())), last.test]),
+                                    body=last.body[:-1] + [ast.Assign(targets=[ast.Name(id=flag, ctx=ast.Store())], value=ast.Constant(value=True))], orelse=[])
+                    loop = ast.For(target=a.target, iter=E, body=a.body[:-1] + [new_if], orelse=[])
+                    init = ast.Assign(targets=[ast.Name(id=flag, ctx=ast.Store())], value=ast.Constant(value=False))
+                    for n_ in (loop, init):
+                        ast.copy_location(n_, a)
+                        ast.fix_missing_locations(n_)
+                    out[i:i + 2] = [init, loop]
+                    del out[defs[0]]
+                    changed = True
+                    if log is not None:
+                        log.append(f'two loops over the iterator `{nm}` fused into one with a one-shot flag')
+                    continue
+            i += 1
+        return out
+    for m in modules.values():
+        m.tree.body = visit(m.tree.body)
+    return changed
+
+
+def lower_local_raises(modules, log=None):
+    """An exception class that is not part of the reference layout, raised inside a `try` body and caught by a handler of that very `try` (which does not look
+    at the exception object and ends by leaving), is an internal signal: the `raise` is replaced by the handler's statements and the handler removed.  Applied
+    after helper expansion (the raise usually sits in a helper).  Nothing is done when anything called from the `try` body could raise the class as well."""
+    _load_pinned()
+    ref_classes = {fq.partition(':')[2].split('.')[0] for fq in _PINNED if '.' in fq.partition(':')[2]} | {c.partition(':')[2] for c in _load_pinned_attrs()['classes']}
+    changed = False
+    new_exc = {}
+    for m in modules.values():
+        for st in m.tree.body:
+            if isinstance(st, ast.ClassDef) and st.name not in ref_classes and any(
+                    (isinstance(b, ast.Name) and b.id in ('Exception', 'BaseException')) for b in st.bases) \
+                    and not any(isinstance(x, ast.FunctionDef) for x in st.body):
+                new_exc[st.name] = m
+    if not new_exc:
+        return False
+
+    def raised_class(r):
+        e = r.exc
+        if isinstance(e, ast.Call):
+            e = e.func
+        return e.id if isinstance(e, ast.Name) else None
+    raisers = {}         # class -> names of functions that contain a raise of it
+    for m in modules.values():
+        for fn in ast.walk(m.tree):
+            if isinstance(fn, (ast.FunctionDef, ast.Lambda)):
+                for x in ast.walk(fn):
+                    if isinstance(x, ast.Raise) and x.exc is not None and raised_class(x) in new_exc:
+                        raisers.setdefault(raised_class(x), set()).add(getattr(fn, 'name', '<lambda>'))
+
+    def leaving(stmts):
+        return bool(stmts) and isinstance(stmts[-1], (ast.Return, ast.Raise, ast.Break, ast.Continue))
+
+    def replace_in(stmts, cls, hb, in_loop, ok, payload_name=None):
+        out = []
+        for st in stmts:
+            if isinstance(st, ast.Raise) and st.exc is not None and raised_class(st) == cls:
+                if in_loop and any(isinstance(x, (ast.Break, ast.Continue)) for x in hb):
+                    ok[0] = False
+                hb2 = copy.deepcopy(hb)
+                if payload_name is not None:
+                    tup = ast.Tuple(elts=list(st.exc.args), ctx=ast.Load())
+
+                    class _P(ast.NodeTransformer):
+                        def visit_Attribute(self, node):
+                            if isinstance(node.value, ast.Name) and node.value.id == payload_name and node.attr == 'args':
+                                return ast.copy_location(copy.deepcopy(tup), node)
+                            self.generic_visit(node)
+                            return node
+                    hb2 = [_P().visit(b) for b in hb2]
+                    # `a, b = (x, y)` at the head of the copied handler, the names used by the rest of it only: the values in place of the names
+                    while hb2 and isinstance(hb2[0], ast.Assign) and len(hb2[0].targets) == 1 and isinstance(hb2[0].targets[0], ast.Tuple) and isinstance(hb2[0].value, ast.Tuple) \
+                            and len(hb2[0].targets[0].elts) == len(hb2[0].value.elts) and all(isinstance(e, ast.Name) for e in hb2[0].targets[0].elts) \
+                            and all(isinstance(e, ast.Constant) for e in hb2[0].value.elts):
+                        names_ = {t_.id: v_ for t_, v_ in zip(hb2[0].targets[0].elts, hb2[0].value.elts)}
+                        if any(isinstance(x, ast.Name) and x.id in names_ and isinstance(x.ctx, (ast.Store, ast.Del)) for b in hb2[1:] for x in ast.walk(b)):
+                            break
+
+                        class _C(ast.NodeTransformer):
+                            def visit_Name(self, node):
+                                if node.id in names_ and isinstance(node.ctx, ast.Load):
+                                    return ast.copy_location(copy.deepcopy(names_[node.id]), node)
+                                return node
+                        hb2 = [_C().visit(b) for b in hb2[1:]]
+                out.extend(hb2)
+                continue
+            if isinstance(st, (ast.FunctionDef, ast.ClassDef, ast.AsyncFunctionDef)):
+                out.append(st)
+                continue
+            if isinstance(st, ast.Try) and any(isinstance(h.type, ast.Name) and h.type.id in (cls, 'Exception', 'BaseException') or h.type is None for h in st.handlers):
+                # a nested try that may catch it first: its body is left alone (and must not raise the class)
+                if any(isinstance(x, ast.Raise) and x.exc is not None and raised_class(x) == cls for b in st.body for x in ast.walk(b)):
+                    ok[0] = False
+                out.append(st)
+                continue
+            loop_here = isinstance(st, (ast.For, ast.While))
+            for fld in ('body', 'orelse', 'finalbody'):
+                sub = getattr(st, fld, None)
+                if isinstance(sub, list) and sub and isinstance(sub[0], ast.stmt):
+                    setattr(st, fld, replace_in(sub, cls, hb, in_loop or (loop_here and fld == 'body'), ok, payload_name))
+            if isinstance(st, ast.Try):
+                for h in st.handlers:
+                    h.body = replace_in(h.body, cls, hb, in_loop, ok, payload_name)
+            out.append(st)
+        return out
+
+    def visit(stmts):
+        nonlocal changed
+        out = []
+        for st in stmts:
+            for fld in ('body', 'orelse', 'finalbody'):
+                sub = getattr(st, fld, None)
+                if isinstance(sub, list) and sub and isinstance(sub[0], ast.stmt):
+                    setattr(st, fld, visit(sub))
+            if isinstance(st, ast.Try):
+                for h in st.handlers:
+                    h.body = visit(h.body)
+                for h in list(st.handlers):
+                    if not (isinstance(h.type, ast.Name) and h.type.id in new_exc):
+                        continue
+                    cls = h.type.id
+                    args_only = False
+                    if h.name and any(isinstance(x, ast.Name) and x.id == h.name for b in h.body for x in ast.walk(b)):
+                        # the exception object may be looked at through `.args` only (its payload)
+                        uses = [x for b in h.body for x in ast.walk(b) if isinstance(x, ast.Name) and x.id == h.name]
+                        attrs = [x for b in h.body for x in ast.walk(b) if isinstance(x, ast.Attribute) and isinstance(x.value, ast.Name) and x.value.id == h.name
+                                 and x.attr == 'args' and isinstance(x.ctx, ast.Load)]
+                        if len(attrs) != len(uses):
+                            continue
+                        args_only = True
+                    if not leaving(h.body):
+                        continue
+                    # earlier handlers must not catch it first
+                    idx = st.handlers.index(h)
+                    if any(hh.type is None or (isinstance(hh.type, ast.Name) and hh.type.id in ('Exception', 'BaseException')) for hh in st.handlers[:idx]):
+                        continue
+                    sites = [x for b in st.body for x in ast.walk(b) if isinstance(x, ast.Raise) and x.exc is not None and raised_class(x) == cls]
+                    if not sites:
+                        continue
+                    called = {(c.func.id if isinstance(c.func, ast.Name) else c.func.attr if isinstance(c.func, ast.Attribute) else None)
+                              for b in st.body for c in ast.walk(b) if isinstance(c, ast.Call)}
+                    if called & raisers.get(cls, set()):
+                        continue
+                    ok = [True]
+                    if args_only and not all(isinstance(x.exc, ast.Call) and not x.exc.keywords and not any(isinstance(a_, ast.Starred) for a_ in x.exc.args) for x in sites):
+                        continue
+                    trial = replace_in(copy.deepcopy(st.body), cls, h.body, False, ok, h.name if args_only else None)
+                    if not ok[0]:
+                        continue
+                    st.body = trial
+                    st.handlers.remove(h)
+                    changed = True
+                    if log is not None:
+                        log.append(f'internal signal `{cls}`: raise replaced by the statements of its handler')
+                if not st.handlers and not st.finalbody:
+                    out.extend(st.body + st.orelse)
+                    continue
+            out.append(st)
+        return out
+    for m in modules.values():
+        m.tree.body = visit(m.tree.body)
+    if changed:
+        for m in modules.values():
+            ast.fix_missing_locations(m.tree)
+    return changed
+
+
+def thread_sentinel_tests(modules, log=None):
+    """An if / elif chain in which every branch ends by binding one local to a literal (a tuple display, a constant, None), directly followed by a test of that
+    local against None (or of its truth): each branch knows the outcome - the statements of the test's taken arm are appended to the branch and the test goes.
+    A tuple display that is then only unpacked (`a, b = x`) into names used by the appended statements is substituted."""
+    changed = False
+
+    def literal_kind(v):
+        """(is_none, truthy) or None"""
+        if isinstance(v, ast.Constant):
+            return (v.value is None, bool(v.value))
+        if isinstance(v, (ast.Tuple, ast.List)) and all(isinstance(e, ast.Constant) for e in v.elts):
+            return (False, bool(v.elts))
+        return None
+
+    def leaves(chain, name, out):
+        """the statement lists that end the chain's paths; False when a path does not end with `name = literal`"""
+        for blk in (chain.body, chain.orelse):
+            if not blk:
+                return False
+            last = blk[-1]
+            if isinstance(last, ast.If) and len(blk) == 1:
+                if not leaves(last, name, out):
+                    return False
+            elif isinstance(last, ast.Assign) and len(last.targets) == 1 and isinstance(last.targets[0], ast.Name) and last.targets[0].id == name \
+                    and literal_kind(last.value) is not None and not any(isinstance(x, ast.Name) and x.id == name for s_ in blk[:-1] for x in ast.walk(s_)):
+                out.append(blk)
+            else:
+                return False
+        return True
+
+    def outcome(test, name):
+        """f(is_none, truthy) -> bool for the recognised tests of `name`"""
+        t, neg = test, False
+        while isinstance(t, ast.UnaryOp) and isinstance(t.op, ast.Not):
+            t, neg = t.operand, not neg
+        if isinstance(t, ast.Name) and t.id == name:
+            return lambda n, tr: tr != neg
+        if isinstance(t, ast.Compare) and len(t.ops) == 1 and isinstance(t.left, ast.Name) and t.left.id == name and isinstance(t.comparators[0], ast.Constant) \
+                and t.comparators[0].value is None and isinstance(t.ops[0], (ast.Is, ast.IsNot)):
+            isnot = isinstance(t.ops[0], ast.IsNot)
+            return lambda n, tr: ((not n) if isnot else n) != neg
+        return None
+
+    def simplify(blk, name):
+        # `x = (c1, c2); a, b = x; REST(a, b)` -> REST(c1, c2) when x, a, b are not used otherwise in REST
+        for i in range(len(blk) - 1):
+            a, b = blk[i], blk[i + 1]
+            if isinstance(a, ast.Assign) and len(a.targets) == 1 and isinstance(a.targets[0], ast.Name) and a.targets[0].id == name and isinstance(a.value, ast.Tuple) \
+                    and isinstance(b, ast.Assign) and len(b.targets) == 1 and isinstance(b.targets[0], ast.Tuple) and isinstance(b.value, ast.Name) and b.value.id == name \
+                    and len(b.targets[0].elts) == len(a.value.elts) and all(isinstance(e, ast.Name) for e in b.targets[0].elts) \
+                    and all(isinstance(e, ast.Constant) for e in a.value.elts):
+                rest = blk[i + 2:]
+                if any(isinstance(x, ast.Name) and x.id == name for s_ in rest for x in ast.walk(s_)):
+                    return blk
+                names_ = {t_.id: v_ for t_, v_ in zip(b.targets[0].elts, a.value.elts)}
+                if any(isinstance(x, ast.Name) and x.id in names_ and isinstance(x.ctx, (ast.Store, ast.Del)) for s_ in rest for x in ast.walk(s_)):
+                    return blk
+                if not rest or not isinstance(rest[-1], (ast.Return, ast.Raise)):
+                    return blk
+
+                class _C(ast.NodeTransformer):
+                    def visit_Name(self, node):
+                        if node.id in names_ and isinstance(node.ctx, ast.Load):
+                            return ast.copy_location(copy.deepcopy(names_[node.id]), node)
+                        return node
+                return blk[:i] + [_C().visit(s_) for s_ in rest]
+        return blk
+
+    def visit(stmts, fn):
+        nonlocal changed
+        for st in stmts:
+            f2 = st if isinstance(st, (ast.FunctionDef, ast.AsyncFunctionDef)) else fn
+            for fld in ('body', 'orelse', 'finalbody'):
+                sub = getattr(st, fld, None)
+                if isinstance(sub, list) and sub and isinstance(sub[0], ast.stmt):
+                    setattr(st, fld, visit(sub, f2))
+            if isinstance(st, ast.Try):
+                for h in st.handlers:
+                    h.body = visit(h.body, f2)
+        out = list(stmts)
+        i = 0
+        while i + 1 < len(out):
+            a, b = out[i], out[i + 1]
+            if isinstance(a, ast.If) and isinstance(b, ast.If) and fn is not None:
+                nm = None
+                t = b.test
+                for x in ast.walk(t):
+                    if isinstance(x, ast.Name):
+                        nm = x.id
+                        break
+                oc = outcome(t, nm) if nm else None
+                lv = []
+                if oc is not None and leaves(a, nm, lv) and len(lv) >= 2:
+                    # the name is dead after the test unless the arms use it: fine either way (the binding stays in the leaf)
+                    for blk in lv:
+                        n_, tr_ = literal_kind(blk[-1].value)
+                        arm = copy.deepcopy(b.body if oc(n_, tr_) else b.orelse)
+                        lit_ = blk[-1].value
+                        if isinstance(lit_, ast.Constant) and not any(isinstance(x, ast.Name) and x.id == nm and isinstance(x.ctx, (ast.Store, ast.Del)) for s_ in arm for x in ast.walk(s_)):
+                            class _K(ast.NodeTransformer):
+                                def visit_Name(self, node):
+                                    if node.id == nm and isinstance(node.ctx, ast.Load):
+                                        return ast.copy_location(ast.Constant(value=lit_.value), node)
+                                    return node
+                            arm = [_K().visit(s_) for s_ in arm]
+                        blk.extend(arm)
+                        blk[:] = simplify(blk, nm)
+                        # the binding itself goes when nothing reads it any more in this leaf and the leaf leaves
+                        if blk and isinstance(blk[-1], (ast.Return, ast.Raise)):
+                            for k, s_ in enumerate(blk):
+                                if isinstance(s_, ast.Assign) and len(s_.targets) == 1 and isinstance(s_.targets[0], ast.Name) and s_.targets[0].id == nm \
+                                        and not any(isinstance(x, ast.Name) and x.id == nm and isinstance(x.ctx, ast.Load) for s2 in blk[k + 1:] for x in ast.walk(s2)):
+                                    del blk[k]
+                                    break
+                        if not blk:
+                            blk.append(ast.copy_location(ast.Pass(), a))
+                    del out[i + 1]
+                    changed = True
+                    if log is not None:
+                        log.append(f'test of `{nm}` after an if-chain binding it to literals: threaded into the branches')
+                    continue
+            i += 1
+        return out
+    for m in modules.values():
+        m.tree.body = visit(m.tree.body, None)
+    if changed:
+        for m in modules.values():
+            ast.fix_missing_locations(m.tree)
+    return changed
+
+
+def undo_callable_objects(modules, log=None):
+    """A module-level function `f` of the reference layout that is gone while the module binds `f = K(<constants>)` with K a new class whose __init__ only stores
+    its arguments and whose __call__ has f's parameters: `f` is K.__call__ with the stored values in place of the attributes."""
+    _load_pinned()
+    changed = False
+    for mname, m in modules.items():
+        defined = {st.name for st in m.tree.body if isinstance(st, (ast.FunctionDef, ast.ClassDef))}
+        for st in list(m.tree.body):
+            if not (isinstance(st, ast.Assign) and len(st.targets) == 1 and isinstance(st.targets[0], ast.Name) and isinstance(st.value, ast.Call)
+                    and isinstance(st.value.func, ast.Name)):
+                continue
+            fname, kname = st.targets[0].id, st.value.func.id
+            if f'{mname}:{fname}' not in _PINNED or fname in defined:
+                continue
+            K = next((k for k in m.tree.body if isinstance(k, ast.ClassDef) and k.name == kname), None)
+            if K is None or K.bases or any(fq.startswith(f'{mname}:{kname}.') for fq in _PINNED):
+                continue
+            if sum(1 for m2 in modules.values() for n in ast.walk(m2.tree) if isinstance(n, ast.Name) and n.id == kname) != 1:
+                continue
+            meth = {s2.name: s2 for s2 in K.body if isinstance(s2, ast.FunctionDef)}
+            if set(meth) - {'__init__', '__call__'} or '__call__' not in meth:
+                continue
+            call, init = meth['__call__'], meth.get('__init__')
+            ref_params = _PINNED_META[f'{mname}:{fname}'][0]
+            cparams = [a.arg for a in call.args.args][1:]
+            if cparams != ref_params or call.args.vararg or call.args.kwarg or call.args.kwonlyargs:
+                continue
+            cargs = st.value
+            if any(isinstance(a, ast.Starred) for a in cargs.args) or any(k.arg is None for k in cargs.keywords):
+                continue
+            if not all(all(isinstance(x, (ast.Constant, ast.Tuple, ast.Name, ast.expr_context, ast.Load)) for x in ast.walk(a)) for a in list(cargs.args) + [k.value for k in cargs.keywords]):
+                continue
+            attr_map = {}
+            if init is not None:
+                ps = [a.arg for a in init.args.args][1:]
+                amap = dict(zip(ps, cargs.args))
+                for k in cargs.keywords:
+                    amap[k.arg] = k.value
+                if set(amap) != set(ps):
+                    continue
+                sn = init.args.args[0].arg
+                ok = True
+                for b in init.body:
+                    if isinstance(b, ast.Expr) and isinstance(b.value, ast.Constant):
+                        continue
+                    pairs = []
+                    if isinstance(b, ast.Assign) and len(b.targets) == 1:
+                        if isinstance(b.targets[0], ast.Tuple) and isinstance(b.value, ast.Tuple) and len(b.targets[0].elts) == len(b.value.elts):
+                            pairs = list(zip(b.targets[0].elts, b.value.elts))
+                        else:
+                            pairs = [(b.targets[0], b.value)]
+                    if not pairs:
+                        ok = False
+                        break
+                    for t_, v_ in pairs:
+                        if isinstance(t_, ast.Attribute) and isinstance(t_.value, ast.Name) and t_.value.id == sn and isinstance(v_, ast.Name) and v_.id in amap:
+                            attr_map[t_.attr] = amap[v_.id]
+                        else:
+                            ok = False
+                if not ok:
+                    continue
+            sn_c = call.args.args[0].arg
+            body = [_SubstAttr(sn_c, attr_map, {}).visit(copy.deepcopy(b)) for b in call.body]
+            if any(isinstance(x, ast.Name) and x.id == sn_c for b in body for x in ast.walk(b)):
+                continue
+            fn = ast.FunctionDef(name=fname, args=ast.arguments(posonlyargs=[], args=[ast.arg(arg=p_) for p_ in cparams], vararg=None, kwonlyargs=[], kw_defaults=[],
+                                                                  kwarg=None, defaults=list(call.args.defaults)), body=body, decorator_list=[], returns=None, type_comment=None)
+            ast.copy_location(fn, call)
+            idx = m.tree.body.index(st)
+            m.tree.body[idx] = fn
+            m.tree.body.remove(K)
+            ast.fix_missing_locations(fn)
+            changed = True
+            if log is not None:
+                log.append(f'`{fname} = {kname}(..)`: the callable object read as the function `{fname}` of the reference layout')
+    return changed
+
+
+def undo_partial_closures(modules, log=None):
+    """`name = partial(H, a1, .., an)` inside a function F, where `F.name` is a nested function of the reference layout that is gone and H a new module-level
+    function taking n more parameters than it: the closure was turned into explicit state - it is `def name(<its parameters>): return H(t1, .., tn, <its
+    parameters>)` with the partial's arguments evaluated once into t1..tn at that point (what partial does)."""
+    _load_pinned()
+    changed = False
+    n_ = [0]
+    for mname, m in modules.items():
+        top_funcs = {st.name: st for st in m.tree.body if isinstance(st, ast.FunctionDef)}
+        scopes = [(st.name, st) for st in m.tree.body if isinstance(st, ast.FunctionDef)] + \
+                 [(f'{c.name}.{s2.name}', s2) for c in m.tree.body if isinstance(c, ast.ClassDef) for s2 in c.body if isinstance(s2, ast.FunctionDef)]
+        for qual, F in scopes:
+            nested_have = {x.name for x in ast.walk(F) if isinstance(x, ast.FunctionDef) and x is not F}
+            for holder in ast.walk(F):
+                for fld in ('body', 'orelse', 'finalbody'):
+                    body = getattr(holder, fld, None)
+                    if not isinstance(body, list):
+                        continue
+                    for i, st in enumerate(body):
+                        if not (isinstance(st, ast.Assign) and len(st.targets) == 1 and isinstance(st.targets[0], ast.Name) and isinstance(st.value, ast.Call)
+                                and (getattr(st.value.func, 'id', None) == 'partial' or getattr(st.value.func, 'attr', None) == 'partial')
+                                and st.value.args and isinstance(st.value.args[0], ast.Name) and not st.value.keywords):
+                            continue
+                        name = st.targets[0].id
+                        fq = f'{mname}:{qual}.{name}'
+                        H = top_funcs.get(st.value.args[0].id)
+                        if fq not in _PINNED or name in nested_have or H is None or f'{mname}:{H.name}' in _PINNED:
+                            continue
+                        ref_params = _PINNED_META[fq][0]
+                        hp = [a.arg for a in H.args.args]
+                        pre_args = st.value.args[1:]
+                        if H.args.vararg or H.args.kwarg or H.args.kwonlyargs or len(hp) != len(pre_args) + len(ref_params) or any(isinstance(a, ast.Starred) for a in pre_args):
+                            continue
+                        new = []
+                        call_args = []
+                        for a in pre_args:
+                            if isinstance(a, (ast.Name, ast.Constant)):
+                                call_args.append(copy.deepcopy(a))
+                            else:
+                                n_[0] += 1
+                                t = f'_pc{n_[0]}'
+                                new.append(ast.copy_location(ast.Assign(targets=[ast.Name(id=t, ctx=ast.Store())], value=a), st))
+                                call_args.append(ast.Name(id=t, ctx=ast.Load()))
+                        call_args += [ast.Name(id=p_, ctx=ast.Load()) for p_ in ref_params]
+                        d = ast.FunctionDef(name=name, args=ast.arguments(posonlyargs=[], args=[ast.arg(arg=p_) for p_ in ref_params], vararg=None, kwonlyargs=[],
+                                                                           kw_defaults=[], kwarg=None, defaults=[]),
+                                            body=[ast.Return(value=ast.Call(func=ast.Name(id=H.name, ctx=ast.Load()), args=call_args, keywords=[]))],
+                                            decorator_list=[], returns=None, type_comment=None)
+                        ast.copy_location(d, st)
+                        new.append(d)
+                        for x in new:
+                            ast.fix_missing_locations(x)
+                        body[i:i + 1] = new
+                        changed = True
+                        if log is not None:
+                            log.append(f'`{name} = partial({H.name}, ..)` in {qual}: read as the nested function `{name}` of the reference layout')
+                        break
+    return changed
+
+
+def undo_function_objects(modules, log=None):
+    """A module-level function `f(p1..pn)` of the reference layout that is gone while a new class K has an __init__ with exactly f's parameters (each stored in an
+    attribute) and one further method `m(self)`, and K is only ever used as `K(args).m()`: f is m with the parameters in place of the attributes."""
+    _load_pinned()
+    changed = False
+    for mname, m in modules.items():
+        defined = {st.name for st in m.tree.body if isinstance(st, (ast.FunctionDef, ast.ClassDef))} | \
+            {t.id for st in m.tree.body if isinstance(st, ast.Assign) for t in st.targets if isinstance(t, ast.Name)}
+        missing = [fq.partition(':')[2] for fq in _PINNED if fq.startswith(mname + ':') and '.' not in fq.partition(':')[2] and fq.partition(':')[2] not in defined]
+        if not missing:
+            continue
+        for K in [k for k in m.tree.body if isinstance(k, ast.ClassDef)]:
+            if K.bases or any(fq.startswith(f'{mname}:{K.name}.') for fq in _PINNED):
+                continue
+            meth = {s2.name: s2 for s2 in K.body if isinstance(s2, ast.FunctionDef)}
+            others = [n_ for n_ in meth if n_ != '__init__']
+            if '__init__' not in meth or len(others) != 1 or meth[others[0]].decorator_list or len(meth[others[0]].args.args) != 1:
+                continue
+            init, mm = meth['__init__'], meth[others[0]]
+            if init.args.vararg or init.args.kwarg or init.args.kwonlyargs or mm.args.vararg or mm.args.kwarg or mm.args.kwonlyargs:
+                continue
+            ps = [a.arg for a in init.args.args][1:]
+            cand = [f_ for f_ in missing if _PINNED_META[f'{mname}:{f_}'][0] == ps]
+            if len(cand) != 1:
+                continue
+            fname = cand[0]
+            sn = init.args.args[0].arg
+            attr_map = {}
+            ok = True
+            for b in init.body:
+                if isinstance(b, ast.Expr) and isinstance(b.value, ast.Constant):
+                    continue
+                if isinstance(b, ast.Assign) and len(b.targets) == 1 and isinstance(b.targets[0], ast.Attribute) and isinstance(b.targets[0].value, ast.Name) \
+                        and b.targets[0].value.id == sn and isinstance(b.value, ast.Name) and b.value.id in ps:
+                    attr_map[b.targets[0].attr] = ast.Name(id=b.value.id, ctx=ast.Load())
+                else:
+                    ok = False
+            if not ok or len(attr_map) != len(ps):
+                continue
+            # every use of K: K(..).m()
+            uses = [n for m2 in modules.values() for n in ast.walk(m2.tree) if isinstance(n, ast.Name) and n.id == K.name]
+            calls = [c for m2 in modules.values() for c in ast.walk(m2.tree) if isinstance(c, ast.Call) and not c.args and not c.keywords and isinstance(c.func, ast.Attribute)
+                     and c.func.attr == mm.name and isinstance(c.func.value, ast.Call) and isinstance(c.func.value.func, ast.Name) and c.func.value.func.id == K.name]
+            if not calls or len(calls) != len(uses):
+                continue
+            sn_m = mm.args.args[0].arg
+            # attribute stores in m become stores of the parameter (a local of f)
+            body = copy.deepcopy(mm.body)
+            for b in body:
+                for x in ast.walk(b):
+                    if isinstance(x, ast.Attribute) and isinstance(x.value, ast.Name) and x.value.id == sn_m and x.attr in attr_map:
+                        nm_ = attr_map[x.attr].id
+                        ctx_ = x.ctx
+                        x.__class__ = ast.Name
+                        x.id = nm_
+                        x.ctx = ctx_
+                        x._fields = ast.Name._fields
+            if any(isinstance(x, ast.Name) and x.id == sn_m for b in body for x in ast.walk(b)):
+                continue
+            fn = ast.FunctionDef(name=fname, args=ast.arguments(posonlyargs=[], args=[ast.arg(arg=p_) for p_ in ps], vararg=None, kwonlyargs=[], kw_defaults=[],
+                                                                  kwarg=None, defaults=list(init.args.defaults)), body=body, decorator_list=[], returns=None, type_comment=None)
+            ast.copy_location(fn, mm)
+            for c in calls:
+                inner = c.func.value
+                c.func = ast.copy_location(ast.Name(id=fname, ctx=ast.Load()), c)
+                c.args, c.keywords = inner.args, inner.keywords
+            idx = m.tree.body.index(K)
+            m.tree.body[idx] = fn
+            ast.fix_missing_locations(m.tree)
+            changed = True
+            if log is not None:
+                log.append(f'`{K.name}(..).{mm.name}()` read as the function `{fname}(..)` of the reference layout')
+    return changed
+
+
+def undo_state_objects(modules, log=None):
+    """`self.m = K().meth` in the __init__ of a class of the reference layout, where `m` is a method the class had in the reference and K a new class that is
+    instantiated nowhere else: K's method and state were carved out of the class - they are put back (K.meth as method m, K's __init__ statements in place of
+    the assignment).  Only when K takes no constructor arguments and none of its member names exists in the class."""
+    _load_pinned()
+    changed = False
+    for mname, m in modules.items():
+        for C in [st for st in m.tree.body if isinstance(st, ast.ClassDef)]:
+            pinned_m = {fq.partition(':')[2].split('.')[1].split('#')[0] for fq in _PINNED if fq.startswith(f'{mname}:{C.name}.') and fq.count('.') >= 1
+                        and len(fq.partition(':')[2].split('.')) == 2}
+            if not pinned_m:
+                continue
+            have = {st.name for st in C.body if isinstance(st, ast.FunctionDef)}
+            init = next((st for st in C.body if isinstance(st, ast.FunctionDef) and st.name == '__init__'), None)
+            if init is None:
+                continue
+            for st in list(init.body):
+                if not (isinstance(st, ast.Assign) and len(st.targets) == 1 and isinstance(st.targets[0], ast.Attribute) and isinstance(st.targets[0].value, ast.Name)
+                        and st.targets[0].value.id == init.args.args[0].arg and isinstance(st.value, ast.Attribute) and isinstance(st.value.value, ast.Call)
+                        and isinstance(st.value.value.func, ast.Name) and not st.value.value.args and not st.value.value.keywords):
+                    continue
+                mname_ = st.targets[0].attr
+                kname, kmeth = st.value.value.func.id, st.value.attr
+                if mname_ not in pinned_m or mname_ in have:
+                    continue
+                K = next((k for k in m.tree.body if isinstance(k, ast.ClassDef) and k.name == kname), None)
+                if K is None or K.bases or any(fq.startswith(f'{mname}:{kname}.') for fq in _PINNED):
+                    continue
+                uses = sum(1 for m2 in modules.values() for n in ast.walk(m2.tree) if isinstance(n, ast.Name) and n.id == kname)
+                if uses != 1:
+                    continue
+                kmeths = {s2.name: s2 for s2 in K.body if isinstance(s2, ast.FunctionDef)}
+                if kmeth not in kmeths or any(not isinstance(s2, (ast.FunctionDef, ast.Expr, ast.Pass)) for s2 in K.body):
+                    continue
+                kinit = kmeths.get('__init__')
+                if kinit is not None and (len(kinit.args.args) != 1 or kinit.args.vararg or kinit.args.kwarg or kinit.args.kwonlyargs):
+                    continue
+                others = [n_ for n_ in kmeths if n_ not in ('__init__', kmeth)]
+                c_attrs = {n.attr for n in ast.walk(C) if isinstance(n, ast.Attribute) and isinstance(n.value, ast.Name) and n.value.id in ('self', 'cls')}
+                k_attrs = {n.attr for n in ast.walk(K) if isinstance(n, ast.Attribute) and isinstance(n.value, ast.Name) and n.value.id == 'self'} - {kmeth}
+                if (set(others) | k_attrs) & (have | c_attrs - {mname_}):
+                    continue
+                if any(a.args.args and a.args.args[0].arg != init.args.args[0].arg for a in kmeths.values()):
+                    continue
+                idx = init.body.index(st)
+                kbody = [b for b in (kinit.body if kinit is not None else []) if not (isinstance(b, ast.Expr) and isinstance(b.value, ast.Constant)) and not isinstance(b, ast.Pass)]
+                init.body[idx:idx + 1] = kbody or [ast.copy_location(ast.Pass(), st)]
+                moved = kmeths[kmeth]
+                moved.name = mname_
+                for n in ast.walk(K):
+                    if isinstance(n, ast.Attribute) and n.attr == kmeth and isinstance(n.value, ast.Name) and n.value.id == 'self':
+                        n.attr = mname_
+                C.body.append(moved)
+                for n_ in others:
+                    C.body.append(kmeths[n_])
+                m.tree.body.remove(K)
+                changed = True
+                if log is not None:
+                    log.append(f'`{C.name}.{mname_}` delegated to a `{kname}` object: method and state put back into `{C.name}`')
+    if changed:
+        for m in modules.values():
+            ast.fix_missing_locations(m.tree)
+    return changed
+
+
+def undo_class_splits(modules, log=None):
+    """A class of the reference layout that lost methods to a *new* class of the package - a base class it now derives from, or a second mixin that is listed
+    wherever the class itself is listed as a base - was split: the members are put back (the class's own definitions win, as in the MRO; a same-named method
+    of the new class that is reached through `super()` is kept under a private name and the `super()` call re-pointed), `__slots__` tuples are joined, and the
+    new class disappears from the base lists.  A new class that anything else derives from or refers to is left alone."""
+    _load_pinned()
+    pinned_cls = {}
+    for fq in _PINNED:
+        mod, _, qual = fq.partition(':')
+        parts = qual.split('.')
+        if len(parts) == 2:
+            pinned_cls.setdefault((mod, parts[0]), set()).add(parts[1].split('#')[0])
+    # class-level names of the reference classes count as members as well
+    for cfq, sig in _load_pinned_attrs()['classes'].items():
+        mod, _, cn = cfq.partition(':')
+        for an, uses in sig.items():
+            if uses and uses[0] == 'class' and not (an.startswith('__') and an.endswith('__')):
+                pinned_cls.setdefault((mod, cn), set()).add(an)
+    all_classes = {}          # name -> [(modname, ClassDef)]
+    for mname, m in modules.items():
+        for st in m.tree.body:
+            if isinstance(st, ast.ClassDef):
+                all_classes.setdefault(st.name, []).append((mname, st))
+
+    def members(c):
+        out = {}
+        for st in c.body:
+            if isinstance(st, (ast.FunctionDef, ast.AsyncFunctionDef, ast.ClassDef)):
+                out.setdefault(st.name, []).append(st)
+            elif isinstance(st, ast.Assign):
+                for t in st.targets:
+                    if isinstance(t, ast.Name):
+                        out.setdefault(t.id, []).append(st)
+            elif isinstance(st, ast.AnnAssign) and isinstance(st.target, ast.Name):
+                out.setdefault(st.target.id, []).append(st)
+        return out
+
+    def base_names(c):
+        return [b.id if isinstance(b, ast.Name) else (b.attr if isinstance(b, ast.Attribute) else None) for b in c.bases]
+    changed = False
+    for (mod, cname), meths in sorted(pinned_cls.items()):
+        if mod not in modules:
+            continue
+        K = next((st for st in modules[mod].tree.body if isinstance(st, ast.ClassDef) and st.name == cname), None)
+        if K is None:
+            continue
+        for _round in range(3):
+            have = members(K)
+            missing = {m_ for m_ in meths if m_ not in have}
+            if not missing:
+                break
+            cands = []
+            for nm, lst in all_classes.items():
+                if len(lst) != 1:
+                    continue
+                cm, C = lst[0]
+                if C is K or (cm, nm) in pinned_cls or nm in ('object',):
+                    continue
+                if not (set(members(C)) & missing):
+                    continue
+                # who refers to C?
+                derived = [(m2, D) for m2, mm in modules.items() for D in ast.walk(mm.tree) if isinstance(D, ast.ClassDef) and nm in base_names(D)]
+                is_base = any(D is K for (_, D) in derived)
+                if is_base and len(derived) == 1:
+                    cands.append(('base', cm, C, derived))
+                elif not is_base and derived and all(cname in base_names(D) for (_, D) in derived):
+                    cands.append(('sibling', cm, C, derived))
+            if len(cands) != 1:
+                break
+            kind, cm, C, derived = cands[0]
+            # other uses of the name C (beyond base lists, the `_as_mixins` table and imports) block the merge
+            other = 0
+            for m2, mm in modules.items():
+                for n in ast.walk(mm.tree):
+                    if isinstance(n, ast.Name) and n.id == C.name and isinstance(n.ctx, ast.Load):
+                        par_ok = any(n in D.bases for (_, D) in derived)
+                        if not par_ok:
+                            other += 1
+            mix_lists = []
+            for m2, mm in modules.items():
+                for st in ast.walk(mm.tree):
+                    if isinstance(st, ast.Assign) and isinstance(st.value, (ast.List, ast.Tuple)) and any(isinstance(e, ast.Name) and e.id == C.name for e in st.value.elts) \
+                            and any(isinstance(e, ast.Name) and e.id == cname for e in st.value.elts):
+                        mix_lists.append(st)
+                        other -= 1
+            if other > 0:
+                break
+            kmem = members(K)
+            moved = []
+            for st in list(C.body):
+                if isinstance(st, ast.Expr) and isinstance(st.value, ast.Constant):
+                    continue           # docstring
+                if isinstance(st, ast.Pass):
+                    continue
+                names_ = [st.name] if isinstance(st, (ast.FunctionDef, ast.AsyncFunctionDef, ast.ClassDef)) else \
+                    [t.id for t in (st.targets if isinstance(st, ast.Assign) else [st.target]) if isinstance(t, ast.Name)] if isinstance(st, (ast.Assign, ast.AnnAssign)) else []
+                if not names_:
+                    moved.append(st)
+                    continue
+                if names_ == ['__slots__'] and '__slots__' in kmem:
+                    ks = kmem['__slots__'][0]
+                    if isinstance(ks, ast.Assign) and isinstance(ks.value, (ast.Tuple, ast.List)) and isinstance(st, ast.Assign) and isinstance(st.value, (ast.Tuple, ast.List)):
+                        ks.value = ast.Tuple(elts=list(st.value.elts) + list(ks.value.elts), ctx=ast.Load())
+                    continue
+                clash = [n_ for n_ in names_ if n_ in kmem]
+                if clash and isinstance(st, ast.FunctionDef):
+                    # K's own definition wins; C's stays reachable for K's super() calls
+                    priv = f'_{C.name.lstrip("_")}__{st.name.strip("_")}'
+                    uses_super = False
+                    for kd in kmem[st.name]:
+                        for call in ast.walk(kd):
+                            if isinstance(call, ast.Call) and isinstance(call.func, ast.Attribute) and call.func.attr == st.name \
+                                    and isinstance(call.func.value, ast.Call) and isinstance(call.func.value.func, ast.Name) and call.func.value.func.id == 'super':
+                                call.func = ast.Attribute(value=ast.Name(id=(kd.args.args[0].arg if kd.args.args else 'self'), ctx=ast.Load()), attr=priv, ctx=ast.Load())
+                                uses_super = True
+                    if uses_super:
+                        st.name = priv
+                        moved.append(st)
+                    continue
+                if clash:
+                    continue
+                moved.append(st)
+            if kind == 'base':
+                K.body = moved + K.body
+                nb = []
+                for b in K.bases:
+                    if (isinstance(b, ast.Name) and b.id == C.name):
+                        nb += list(C.bases)
+                    else:
+                        nb.append(b)
+                K.bases = nb
+            else:
+                K.body = K.body + moved
+                for (_, D) in derived:
+                    D.bases = [b for b in D.bases if not (isinstance(b, ast.Name) and b.id == C.name)]
+            for st in mix_lists:
+                st.value.elts = [e for e in st.value.elts if not (isinstance(e, ast.Name) and e.id == C.name)]
+            K.body = [st for st in K.body if not isinstance(st, ast.Pass)] or [ast.Pass()]
+            if cm != mod:
+                for st in moved:
+                    for n in ast.walk(st):
+                        n._found_in = getattr(modules[cm], "relpath", None)
+            modules[cm].tree.body.remove(C)
+            del all_classes[C.name]
+            changed = True
+            if log is not None:
+                log.append(f'class `{C.name}` ({kind} of `{cname}`) holds members of `{cname}` of the reference layout: merged back')
+    if changed:
+        for m in modules.values():
+            ast.fix_missing_locations(m.tree)
+    return changed
+
+
 def undo_moves(modules, log=None):
     """A top-level function or class of the reference layout that is gone from its module while exactly one other module of the package
     (possibly a new one) defines a top-level function / class of that name - which is not an entity of the reference layout there - was
@@ -673,6 +2224,21 @@ class _Helper:
         if a.vararg or a.kwarg or a.posonlyargs:
             return False
         self.nested = [n for n in ast.walk(fn) if n is not fn and isinstance(n, DEFS)]
+        # parameters of the helper's own nested functions that shadow a name of the helper are renamed inside the nested function (alpha-conversion)
+        outer_names = {x.arg for x in a.args + a.kwonlyargs}
+        for st_ in fn.body:
+            if not isinstance(st_, ast.FunctionDef):
+                for n in ast.walk(st_):
+                    if isinstance(n, ast.Name) and isinstance(n.ctx, (ast.Store, ast.Del)):
+                        outer_names.add(n.id)
+        for d in [st_ for st_ in fn.body if isinstance(st_, ast.FunctionDef)]:
+            clash = {x.arg for x in ast.walk(d.args) if isinstance(x, ast.arg)} & outer_names
+            if clash and not any(isinstance(n, (ast.Global, ast.Nonlocal)) for n in ast.walk(d)):
+                for n in ast.walk(d):
+                    if isinstance(n, ast.Name) and n.id in clash:
+                        n.id = n.id + '__n'
+                    elif isinstance(n, ast.arg) and n.arg in clash:
+                        n.arg = n.arg + '__n'
         for n in ast.walk(fn):
             if n is not fn and isinstance(n, DEFS) and not (isinstance(n, ast.FunctionDef) and n in fn.body):
                 return False        # closures are accepted only as plain `def` statements of the helper's own body (factories)
@@ -809,6 +2375,116 @@ class Inliner:
                                 self._note_extended(mname, st.name, s2, fq)
         return {k: h for k, h in self.helpers.items() if h.ok}
 
+    def _absorb_continuations(self):
+        """`T = helper(..); <straight-line statements>; return E` at the end of a function of the reference layout, where the helper leaves from inside loops (so
+        its body cannot be spliced in front of the rest): the rest is the continuation of every return of the helper - a copy of the helper is made in which each
+        `return V` reads `T = V; <the statements>; return E`, and the function ends `return <that copy>(..)`."""
+        changed = False
+        n = 0
+        for mname, m in self.modules.items():
+            scopes = [(None, st) for st in m.tree.body if isinstance(st, ast.FunctionDef)] + \
+                     [(c.name, s2) for c in m.tree.body if isinstance(c, ast.ClassDef) for s2 in c.body if isinstance(s2, ast.FunctionDef)]
+            for cls_name, fn in scopes:
+                fq = f'{mname}:{cls_name}.{fn.name}' if cls_name else f'{mname}:{fn.name}'
+                if fq not in self.pinned:
+                    continue
+                body = fn.body
+                for i, st in enumerate(body):
+                    if not (isinstance(st, ast.Assign) and len(st.targets) == 1 and isinstance(st.value, ast.Call)):
+                        continue
+                    h, recv = self._resolve0(mname, cls_name, st.value)
+                    if h is None or not h.ok or h.tail_ok or h.is_gen:
+                        continue
+                    rest = body[i + 1:]
+                    if not rest or not isinstance(rest[-1], ast.Return) or not all(isinstance(r, (ast.Assign, ast.AugAssign, ast.Expr, ast.Return)) for r in rest) \
+                            or any(isinstance(r, ast.Return) for r in rest[:-1]):
+                        continue
+                    tgt = st.targets[0]
+                    telts = tgt.elts if isinstance(tgt, ast.Tuple) else [tgt]
+                    if not all(isinstance(e, ast.Name) or (isinstance(e, ast.Attribute) and isinstance(e.value, ast.Name) and e.value.id in ('self', 'cls')) for e in telts):
+                        continue
+                    tnames = {e.id for e in telts if isinstance(e, ast.Name)}
+                    loaded = {x.id for r in rest for x in ast.walk(r) if isinstance(x, ast.Name) and isinstance(x.ctx, ast.Load)}
+                    selfname = h.params[0] if h.kind in ('method', 'classmethod') else None
+                    caller_self = fn.args.args[0].arg if cls_name and fn.args.args else None
+                    if selfname != caller_self and (caller_self in loaded or any(isinstance(e, ast.Attribute) for e in telts)):
+                        continue
+                    capture = (loaded - tnames - {caller_self}) & (set(h.stored) | set(h.params))
+                    if capture:
+                        continue
+                    n += 1
+                    new_name = f'{h.node.name}__k{n}'
+                    node2 = copy.deepcopy(h.node)
+                    node2.name = new_name
+
+                    def emit_cont(val, at):
+                        """`T = val; <rest>` - element by element when both sides are displays of equal length and no element reads what an earlier one wrote"""
+                        outs = []
+                        if isinstance(tgt, ast.Tuple) and isinstance(val, ast.Tuple) and len(val.elts) == len(tgt.elts):
+                            texts = [ast.unparse(e) for e in tgt.elts]
+                            safe = True
+                            for k in range(len(texts)):
+                                reads = {ast.unparse(x) for x in ast.walk(val.elts[k]) if isinstance(x, (ast.Name, ast.Attribute))}
+                                if any(texts[j] in reads for j in range(len(texts)) if j != k and not (texts[j] == ast.unparse(val.elts[j]))):
+                                    safe = False
+                            if safe:
+                                ret_idx = None
+                                if len(rest) == 1 and isinstance(rest[0].value, ast.Name) and rest[0].value.id in texts:
+                                    ret_idx = texts.index(rest[0].value.id)
+                                for k, (t_, v_) in enumerate(zip(tgt.elts, val.elts)):
+                                    if k == ret_idx or ast.unparse(t_) == ast.unparse(v_):
+                                        continue
+                                    outs.append(ast.copy_location(ast.Assign(targets=[copy.deepcopy(t_)], value=v_), at))
+                                if ret_idx is not None:
+                                    outs.append(ast.copy_location(ast.Return(value=val.elts[ret_idx]), at))
+                                else:
+                                    outs.extend(copy.deepcopy(rest))
+                                return outs
+                        outs.append(ast.copy_location(ast.Assign(targets=[copy.deepcopy(tgt)], value=val), at))
+                        outs.extend(copy.deepcopy(rest))
+                        return outs
+
+                    def conv(stmts):
+                        out = []
+                        for s_ in stmts:
+                            if isinstance(s_, ast.Return):
+                                val = s_.value if s_.value is not None else ast.Constant(value=None)
+                                out.extend(emit_cont(val, s_))
+                                continue
+                            if isinstance(s_, DEFS):
+                                out.append(s_)
+                                continue
+                            for fld in ('body', 'orelse', 'finalbody'):
+                                sub = getattr(s_, fld, None)
+                                if isinstance(sub, list) and sub and isinstance(sub[0], ast.stmt):
+                                    setattr(s_, fld, conv(sub))
+                            if isinstance(s_, ast.Try):
+                                for hd in s_.handlers:
+                                    hd.body = conv(hd.body)
+                            out.append(s_)
+                        return out
+                    nb = conv(node2.body)
+                    if not isinstance(nb[-1], (ast.Return, ast.Raise)):
+                        nb = nb + emit_cont(ast.Constant(value=None), node2.body[-1])
+                    node2.body = nb
+                    ast.fix_missing_locations(node2)
+                    h2 = _Helper(mname, f'{cls_name}.{new_name}' if h.cls_name else new_name, node2, h.cls_name)
+                    if not h2.ok:
+                        continue
+                    self.helpers[(mname, h.cls_name, new_name)] = h2
+                    call = copy.deepcopy(st.value)
+                    if isinstance(call.func, ast.Name):
+                        call.func.id = new_name
+                    else:
+                        call.func.attr = new_name
+                    ret = ast.copy_location(ast.Return(value=call), st)
+                    ast.fix_missing_locations(ret)
+                    fn.body = body[:i] + [ret]
+                    changed = True
+                    self.log.append(f'{fq}: the statements after `{h.node.name}(..)` taken as the continuation of its returns')
+                    break
+        return changed
+
     def _note_extended(self, mname, cls_name, node, fq):
         """a function of the reference layout that gained optional parameters: a call that passes one of them cannot be a call of the
         reference layout - it is the reuse of the function's body by a new caller, and is inlined there like a new helper (the function
@@ -937,6 +2613,31 @@ class Inliner:
                         continue
                     b2 = body_of(fn2)
                     k = len(b2) - len(bd)
+                    if k == 0 and len(b2) >= 1 and [ast.dump(x) for x in b2[:-1]] == bd[:-1] and isinstance(b2[-1], ast.Return) and isinstance(body_of(dflt)[-1], ast.Return) \
+                            and b2[-1].value is not None and body_of(dflt)[-1].value is not None and ast.dump(b2[-1]) != bd[-1]:
+                        # the same function with a wrapper around what it returns: `W(f(x))`
+                        V = body_of(dflt)[-1].value
+                        E2 = copy.deepcopy(b2[-1].value)
+                        vd = ast.dump(V)
+                        holes = [n for n in ast.walk(E2) if ast.dump(n) == vd]
+                        other_returns = [r for st_ in b2[:-1] for r in ast.walk(st_) if isinstance(r, ast.Return)]
+                        if len(holes) == 1 and not other_returns:
+                            resid = copy.deepcopy(call)
+                            resid.keywords = [k_ for k_ in resid.keywords if k_.arg not in passed]
+                            if holes[0] is E2:
+                                continue
+                            _replace_node(E2, holes[0], resid)
+                            consts_ = {p_: kws[p_] for p_ in passed}
+                            free = {n.id for n in ast.walk(E2) if isinstance(n, ast.Name) and not any(n is y for y in ast.walk(resid))}
+                            local_names = set(h.stored) | set(h.params)
+                            if (free & local_names) - set(consts_):
+                                continue
+                            E2 = _Subst({}, consts_).visit(E2)
+                            ast.fix_missing_locations(ast.copy_location(E2, call))
+                            if _replace_node(m.tree, call, E2):
+                                changed = True
+                                self.log.append(f'{mname}:{name}(.., {", ".join(passed)}=..): the call is the reference call wrapped in what the new parameter adds to the result')
+                        continue
                     if k < 1 or [ast.dump(x) for x in b2[k:]] != bd:
                         continue
                     guards = b2[:k]
@@ -1071,6 +2772,10 @@ class Inliner:
             x = self.ext_helpers.get(key) if key else None
             if x is not None and any(kw.arg in x.new_params for kw in call.keywords) and \
                     not (self._cur_fn is not None and self._cur_fn is x.node):
+                # (a caller that called the function in the reference layout as well keeps its call: the rules are anchored at it)
+                xfq = f'{x.modname}:{x.qual}'
+                if getattr(self, '_cur_fq', None) in pinned_callers(xfq):
+                    return h, recv
                 return x, recv
         return h, recv
 
@@ -1463,6 +3168,37 @@ class Inliner:
                 and isinstance(st.value.func, ast.Name) and st.value.func.id == 'next' and len(st.value.args) == 2 and not st.value.keywords \
                 and isinstance(st.value.args[0], ast.Call) and _simple_arg(st.value.args[1]):
             h, recv = self._resolve(mname, cls_name, st.value.args[0])
+            if h is not None and h.is_gen and not any(isinstance(n, LOOPS + (ast.YieldFrom, ast.Return)) for n in ast.walk(h.node)) and \
+                    all(isinstance(getattr(y, '_par', None), ast.Expr) or True for y in ast.walk(h.node) if isinstance(y, ast.Yield)):
+                # a loop-free generator: its first value is what a function returning at the first yield returns
+                node2 = copy.deepcopy(h.node)
+                stmt_yields = {id(s_.value) for s_ in ast.walk(node2) if isinstance(s_, ast.Expr) and isinstance(s_.value, ast.Yield)}
+                if all(id(y) in stmt_yields for y in ast.walk(node2) if isinstance(y, ast.Yield)):
+                    def to_ret(stmts):
+                        out = []
+                        for s_ in stmts:
+                            if isinstance(s_, ast.Expr) and isinstance(s_.value, ast.Yield):
+                                out.append(ast.copy_location(ast.Return(value=s_.value.value if s_.value.value is not None else ast.Constant(value=None)), s_))
+                                break
+                            for fld in ('body', 'orelse', 'finalbody'):
+                                sub = getattr(s_, fld, None)
+                                if isinstance(sub, list) and sub and isinstance(sub[0], ast.stmt):
+                                    setattr(s_, fld, to_ret(sub))
+                            if isinstance(s_, ast.Try):
+                                for hd in s_.handlers:
+                                    hd.body = to_ret(hd.body)
+                            out.append(s_)
+                        return out
+                    node2.body = to_ret(node2.body) + [ast.Return(value=copy.deepcopy(st.value.args[1]))]
+                    node2.name = h.node.name + '__first'
+                    ast.fix_missing_locations(node2)
+                    h2 = _Helper(h.modname, h.qual + '__first', node2, h.cls_name)
+                    if h2.ok and h2.tail_ok and not h2.is_gen:
+                        exp = self._expand(h2, st.value.args[0], recv, 'assign', targets=st.targets)
+                        if exp is not None:
+                            key = (h.modname, h.cls_name, h.node.name)
+                            self.inlined_sites[key] = self.inlined_sites.get(key, 0) + 1
+                            return exp
             if h is not None and h.is_gen and h.tail_ok:
                 exp = self._expand(h, st.value.args[0], recv, 'gen')
                 tname = st.targets[0].id
@@ -1723,7 +3459,10 @@ class Inliner:
         def atom(e, local=False):
             if isinstance(e, (ast.Name, ast.Constant)) or (isinstance(e, ast.Attribute) and _simple_arg(e)):
                 return True
-            return local and isinstance(e, ast.Lambda) and not (e.args.args or e.args.posonlyargs or e.args.kwonlyargs or e.args.vararg or e.args.kwarg)
+            if isinstance(e, ast.Lambda) and not (e.args.posonlyargs or e.args.kwonlyargs or e.args.vararg or e.args.kwarg or e.args.defaults):
+                # (a lambda with parameters is applied by substitution: it must not bind anything itself)
+                return (local and not e.args.args) or (bool(e.args.args) and not any(isinstance(x, (ast.Lambda, ast.NamedExpr, ast.comprehension)) for x in ast.walk(e.body)))
+            return False
 
         def table_value(v, local=False):
             if isinstance(v, (ast.Tuple, ast.List)) and 0 < len(v.elts) <= 8:
@@ -1735,8 +3474,10 @@ class Inliner:
         class Beta(ast.NodeTransformer):
             def visit_Call(self_, n):
                 self_.generic_visit(n)
-                if isinstance(n.func, ast.Lambda) and not n.args and not n.keywords:
+                if isinstance(n.func, ast.Lambda) and not n.args and not n.keywords and not n.func.args.args:
                     return n.func.body
+                if isinstance(n.func, ast.Lambda) and not n.keywords and n.func.args.args and len(n.args) == len(n.func.args.args) and all(_simple_arg(a) for a in n.args):
+                    return _Subst({}, {p_.arg: a_ for p_, a_ in zip(n.func.args.args, n.args)}).visit(copy.deepcopy(n.func.body))
                 return n
         for mname, m in self.modules.items():
             tables, stores = {}, {}
@@ -1839,6 +3580,29 @@ class Inliner:
                         tables[st.targets[0].id] = st.value
             if not tables:
                 continue
+            # `.. TABLE[K](args) ..` as a statement of its own: the looked-up function is named first
+            for fn in [n for n in ast.walk(m.tree) if isinstance(n, ast.FunctionDef)]:
+                local_stores = {n.id for n in ast.walk(fn) if isinstance(n, ast.Name) and isinstance(n.ctx, (ast.Store, ast.Del))}
+                for holder in ast.walk(fn):
+                    for field in ('body', 'orelse', 'finalbody'):
+                        body = getattr(holder, field, None)
+                        if not isinstance(body, list):
+                            continue
+                        i = 0
+                        while i < len(body):
+                            st = body[i]
+                            if isinstance(st, (ast.Assign, ast.Expr, ast.Return)) and st.value is not None:
+                                hits = [c for c in ast.walk(st.value) if isinstance(c, ast.Call) and isinstance(c.func, ast.Subscript) and isinstance(c.func.value, ast.Name)
+                                        and c.func.value.id in tables and c.func.value.id not in local_stores]
+                                if len(hits) == 1 and (st.value is hits[0]):
+                                    self.counter += 1
+                                    nm_ = f'_disp__i{self.counter}'
+                                    pre_ = ast.copy_location(ast.Assign(targets=[ast.Name(id=nm_, ctx=ast.Store())], value=hits[0].func), st)
+                                    hits[0].func = ast.copy_location(ast.Name(id=nm_, ctx=ast.Load()), st)
+                                    ast.fix_missing_locations(pre_)
+                                    body.insert(i, pre_)
+                                    i += 1
+                            i += 1
             for fn in [n for n in ast.walk(m.tree) if isinstance(n, ast.FunctionDef)]:
                 fstores, floads = {}, {}
                 for n in ast.walk(fn):
@@ -1851,6 +3615,14 @@ class Inliner:
                         if not isinstance(body, list):
                             continue
                         for i, st in enumerate(body[:-1]):
+                            dflt_ = None
+                            if isinstance(st, ast.Assign) and len(st.targets) == 1 and isinstance(st.targets[0], ast.Name) and isinstance(st.value, ast.Call) \
+                                    and isinstance(st.value.func, ast.Attribute) and st.value.func.attr == 'get' and isinstance(st.value.func.value, ast.Name) \
+                                    and st.value.func.value.id in tables and st.value.func.value.id not in fstores and len(st.value.args) == 2 and not st.value.keywords \
+                                    and isinstance(st.value.args[1], (ast.Name, ast.Attribute, ast.Constant)):
+                                # TABLE.get(K, default): the same chain with the default in the last branch
+                                dflt_ = st.value.args[1]
+                                st = ast.copy_location(ast.Assign(targets=st.targets, value=ast.Subscript(value=st.value.func.value, slice=st.value.args[0], ctx=ast.Load())), st)
                             if not (isinstance(st, ast.Assign) and len(st.targets) == 1 and isinstance(st.targets[0], ast.Name) and isinstance(st.value, ast.Subscript)
                                     and isinstance(st.value.value, ast.Name) and st.value.value.id in tables and st.value.value.id not in fstores):
                                 continue
@@ -1870,6 +3642,11 @@ class Inliner:
                                 continue
                             exhaustive = bool_form and len(set(keys)) == 2 ** len(K.elts)
                             chain = [] if exhaustive else [ast.Raise(exc=ast.Call(func=ast.Name(id='KeyError', ctx=ast.Load()), args=[copy.deepcopy(K)], keywords=[]), cause=None)]
+                            if dflt_ is not None:
+                                stmt_d = copy.deepcopy(nxt)
+                                u_d = [n for n in ast.walk(stmt_d) if isinstance(n, ast.Name) and n.id == f_ and isinstance(n.ctx, ast.Load)][0]
+                                _replace_node(stmt_d, u_d, copy.deepcopy(dflt_))
+                                chain = [stmt_d]
                             rows = list(zip(keys, tab.keys, tab.values))
                             for idx, (kv, knode, vnode) in reversed(list(enumerate(rows))):
                                 if bool_form:
@@ -1895,6 +3672,9 @@ class Inliner:
 
     def run(self):
         nt_changed = self._namedtuple_calls_to_tuples()
+        if _PRE_MADE:
+            self._made_prefixes |= _PRE_MADE
+            nt_changed = True
         if self._deforward():
             nt_changed = True
         if self._unroll_table_loops():
@@ -1905,11 +3685,15 @@ class Inliner:
         self._find_records()
         if not cands and not self.records and not self.ext_helpers:
             if nt_changed:
+                if _PRE_MADE:
+                    self._propagate_made_aliases()
                 for m in self.modules.values():
                     ast.fix_missing_locations(m.tree)
             return nt_changed
         self._unalias_helper_values()
         any_change = self._residualise_extended_calls() if self.ext_helpers else False
+        if self._absorb_continuations():
+            any_change = True
         for _round in range(3):
             changed = False
             for mname, m in self.modules.items():
@@ -1917,6 +3701,7 @@ class Inliner:
                     if isinstance(st, ast.FunctionDef):
                         self._cur_vars = self.records.get(id(st), {})
                         self._cur_fn = st
+                        self._cur_fq = f'{mname}:{st.name}'
                         if self._process_body(st.body, mname, None):
                             changed = True
                     elif isinstance(st, ast.ClassDef):
@@ -1924,6 +3709,7 @@ class Inliner:
                             if isinstance(s2, ast.FunctionDef):
                                 self._cur_vars = self.records.get(id(s2), {})
                                 self._cur_fn = s2
+                                self._cur_fq = f'{mname}:{st.name}.{s2.name}'
                                 if self._process_body(s2.body, mname, st.name):
                                     changed = True
             self._cur_vars = {}
@@ -1940,6 +3726,7 @@ class Inliner:
         any_change = any_change or nt_changed
         if any_change:
             self._scalarise_records()
+            self._scalarise_branch_records()
             self._propagate_made_aliases()
             self._drop_fully_inlined()
             for m in self.modules.values():
@@ -1993,6 +3780,75 @@ class Inliner:
                             do_func(s2, mname, st.name)
 
     # ---------------------------------------------------------------- record objects (scalar replacement)
+    def _scalarise_branch_records(self):
+        """after helper expansion: a local bound only by constructor calls `v = K(..)` of one new record class (one call per branch, say) and only read through
+        its fields is one local per field"""
+        classes = self._new_record_classes()
+        changed = False
+        for (mname, kname), (cnode, fields, init, props) in classes.items():
+            if props or init is None or self._namedtuple_fields(cnode) is not None:
+                continue
+            sn = init.args.args[0].arg
+            ps = [a.arg for a in init.args.args][1:]
+            if init.args.vararg or init.args.kwarg or init.args.kwonlyargs:
+                continue
+            fmap = {}      # field -> parameter
+            ok = True
+            for x in init.body:
+                if isinstance(x, ast.Expr) and isinstance(x.value, ast.Constant):
+                    continue
+                if isinstance(x, ast.Assign) and len(x.targets) == 1 and isinstance(x.targets[0], ast.Attribute) and isinstance(x.value, ast.Name) and x.value.id in ps:
+                    fmap[x.targets[0].attr] = x.value.id
+                else:
+                    ok = False
+            if not ok or set(fmap) != set(fields) or any(isinstance(s2, ast.FunctionDef) and s2.name != '__init__' for s2 in cnode.body):
+                continue
+            dflt = dict(zip(ps[len(ps) - len(init.args.defaults):], init.args.defaults))
+            m = self.modules[mname]
+            for fn in [x for x in ast.walk(m.tree) if isinstance(x, ast.FunctionDef)]:
+                own = list(_walk_no_defs_body(fn))
+                cands = {}
+                for x in own:
+                    if isinstance(x, ast.Assign) and len(x.targets) == 1 and isinstance(x.targets[0], ast.Name) and isinstance(x.value, ast.Call) \
+                            and isinstance(x.value.func, ast.Name) and x.value.func.id == kname:
+                        cands.setdefault(x.targets[0].id, []).append(x)
+                for v, asgs in cands.items():
+                    stores = [x for x in own if isinstance(x, ast.Name) and x.id == v and isinstance(x.ctx, (ast.Store, ast.Del))]
+                    loads = [x for x in ast.walk(fn) if isinstance(x, ast.Name) and x.id == v and isinstance(x.ctx, ast.Load)]
+                    attrs = [x for x in own if isinstance(x, ast.Attribute) and isinstance(x.value, ast.Name) and x.value.id == v and isinstance(x.ctx, ast.Load) and x.attr in fmap]
+                    if len(stores) != len(asgs) or not loads or len(attrs) != len(loads) or any(a.arg == v for a in fn.args.args + fn.args.kwonlyargs):
+                        continue
+                    plans = []
+                    for a in asgs:
+                        c = a.value
+                        if any(isinstance(z, ast.Starred) for z in c.args) or any(k.arg is None for k in c.keywords) or len(c.args) > len(ps):
+                            plans = None
+                            break
+                        bound = dict(zip(ps, c.args))
+                        for k in c.keywords:
+                            bound[k.arg] = k.value
+                        for p_ in ps:
+                            if p_ not in bound and p_ in dflt:
+                                bound[p_] = copy.deepcopy(dflt[p_])
+                        if set(bound) != set(ps):
+                            plans = None
+                            break
+                        plans.append((a, bound))
+                    if not plans:
+                        continue
+                    order = sorted(fmap, key=lambda f_: ps.index(fmap[f_]))
+                    for a, bound in plans:
+                        new = [ast.copy_location(ast.Assign(targets=[ast.Name(id=f'{v}__{f_}', ctx=ast.Store())], value=bound[fmap[f_]]), a) for f_ in order]
+                        _replace_stmt(fn, a, new)
+                    for x in attrs:
+                        x.__class__ = ast.Name
+                        x.id = f'{v}__{x.attr}'
+                        x._fields = ast.Name._fields
+                    self._made_prefixes.add(f'{v}__')
+                    changed = True
+                    self.log.append(f'{mname}:{fn.name}: record `{v}` of class `{kname}` (bound at {len(asgs)} site(s)) read as one local per field')
+        return changed
+
     def _new_record_classes(self):
         out = {}
         for mname, m in self.modules.items():
@@ -2010,12 +3866,19 @@ class Inliner:
                 if any(not (isinstance(b, ast.Name) and b.id == 'object') for b in st.bases):
                     continue
                 ok = True
+                props_ = {}
                 for s2 in st.body:
                     if isinstance(s2, ast.FunctionDef):
                         if s2.name.startswith('__') and s2.name != '__init__':
                             ok = False
                         if s2.decorator_list:
-                            ok = False
+                            # a read-only property that is one expression of self
+                            pb = [x for x in s2.body if not (isinstance(x, ast.Expr) and isinstance(x.value, ast.Constant))]
+                            if len(s2.decorator_list) == 1 and isinstance(s2.decorator_list[0], ast.Name) and s2.decorator_list[0].id == 'property' \
+                                    and len(s2.args.args) == 1 and len(pb) == 1 and isinstance(pb[0], ast.Return) and pb[0].value is not None:
+                                props_[s2.name] = (s2.args.args[0].arg, pb[0].value)
+                            else:
+                                ok = False
                     elif isinstance(s2, ast.Expr) and isinstance(s2.value, ast.Constant):
                         pass
                     elif isinstance(s2, ast.Assign) and all(isinstance(t, ast.Name) and t.id == '__slots__' for t in s2.targets):
@@ -2038,7 +3901,7 @@ class Inliner:
                     else:
                         ok = False
                 if ok and fields:
-                    out[(mname, st.name)] = (st, fields, init, {})
+                    out[(mname, st.name)] = (st, fields, init, props_)
         return out
 
     @staticmethod
@@ -2331,6 +4194,31 @@ class Inliner:
                                               and isinstance(body[j].targets[0], ast.Name) and body[j].targets[0].id == q]
                                         if js and not any(isinstance(n, ast.Name) and n.id == t for b_ in body[js[-1] + 1:i] for n in ast.walk(b_)):
                                             body[js[-1]].targets[0].id = t
+                                            del body[i]
+                                            done = True
+                                            break
+                                        # ... the made name bound as one element of an unpacking target
+                                        jt = [j for j in range(i) if isinstance(body[j], ast.Assign) and len(body[j].targets) == 1 and isinstance(body[j].targets[0], ast.Tuple)
+                                              and any(isinstance(e, ast.Name) and e.id == q for e in body[j].targets[0].elts)]
+                                        if jt and not any(isinstance(e, ast.Name) and e.id == t for e in body[jt[-1]].targets[0].elts) and \
+                                                not any(isinstance(n, ast.Name) and n.id == t for b_ in body[jt[-1] + 1:i] for n in ast.walk(b_)) and \
+                                                not any(isinstance(n, ast.Name) and n.id == t for n in ast.walk(body[jt[-1]].value)):
+                                            for e in body[jt[-1]].targets[0].elts:
+                                                if isinstance(e, ast.Name) and e.id == q:
+                                                    e.id = t
+                                            del body[i]
+                                            done = True
+                                            break
+                                    if is_made(t) and is_made(q) and stores.get(t) == 1 and t not in params and t != q and stores.get(q, 0) < 5:
+                                        # a made copy of a made name: read the original, as long as it is not rebound behind the copy and every read of the copy follows it
+                                        later = body[i + 1:]
+                                        loads_t = [n for n in ast.walk(fn) if isinstance(n, ast.Name) and n.id == t and isinstance(n.ctx, ast.Load)]
+                                        later_ids = {id(n) for b_ in later for n in ast.walk(b_)}
+                                        if loads_t and all(id(n) in later_ids for n in loads_t) and \
+                                                not any(isinstance(n, ast.Name) and n.id == q and isinstance(n.ctx, (ast.Store, ast.Del)) for b_ in later for n in ast.walk(b_)) and \
+                                                not any(isinstance(h_, LOOPS) and any(st is x for x in ast.walk(h_)) for h_ in ast.walk(fn)):
+                                            for n in loads_t:
+                                                n.id = q
                                             del body[i]
                                             done = True
                                             break
